@@ -169,6 +169,11 @@ Definition cw_st (k : ckind) (s : cst) : bool :=
 Definition dw_st (k : ckind) (s : cst) : bool :=
   match k, s with KLe, SDisconnecting => true | KCl, SWaitDisconnect => true | _, _ => false end.
 
+(* the two channel classes have different state types: an LE channel is never in a classic
+   open state and vice versa *)
+Definition kind_st (k : ckind) (s : cst) : bool :=
+  match k with KLe => negb (cl_abortable_st s) | KCl => negb (le_open_st s) end.
+
 Definition waiter_is (m : mgr) (w : Z) (k : wkind) (h r : Z) : Prop :=
   exists x, wget m w = Some x /\ w_out x = O_PENDING /\ w_kind x = k /\ w_conn x = h /\ w_ref x = r.
 
@@ -194,6 +199,7 @@ Record Inv (m : mgr) : Prop := {
           c_kind c = KLe /\ c_live c = true /\ c_st c = SConnected;
   ch_dead : forall u c, hget m u = Some c -> c_live c = false ->
             le_open_st (c_st c) = false /\ cl_abortable_st (c_st c) = false;
+  ch_ks : forall u c, hget m u = Some c -> kind_st (c_kind c) (c_st c) = true;
   w_own : forall w x, wget m w = Some x -> w_out x = O_PENDING ->
           match w_kind x with
           | WOpen => exists c, hget m (w_ref x) = Some c /\ c_cw c = Some w
@@ -201,7 +207,7 @@ Record Inv (m : mgr) : Prop := {
           | WOpenEnh => exists us, tget (w_conn x) (w_ref x) (m_pend m) = Some (w, us)
           end;
   pend_ok : forall h id w us, tget h id (m_pend m) = Some (w, us) ->
-            waiter_is m w WOpenEnh h id /\
+            waiter_is m w WOpenEnh h id /\ NoDup us /\
             forall u, In u us ->
               exists c, hget m u = Some c /\ c_kind c = KLe /\ c_conn c = h /\ c_st c = SInit /\
                         c_ref c = id /\ c_live c = true /\ c_cw c = None /\ c_dw c = None;
@@ -240,10 +246,11 @@ Proof.
   - intros u c w H. rewrite Hh in H. rewrite Hwi. eauto.
   - intros u c H. rewrite Hh in H. eauto.
   - intros u c H. rewrite Hh in H. eauto.
+  - intros u c H. rewrite Hh in H. eauto.
   - intros w x H Ho. rewrite Hw in H. specialize (w_own0 w x H Ho).
     destruct (w_kind x); try (destruct w_own0 as [c Hc']; exists c; now rewrite Hh). auto.
-  - intros h id w us H. specialize (pend_ok0 h id w us H). destruct pend_ok0 as [A B].
-    split; [now apply Hwi|]. intros u Hu. destruct (B u Hu) as [c Hc']. exists c. now rewrite Hh.
+  - intros h id w us H. specialize (pend_ok0 h id w us H). destruct pend_ok0 as (A & N & B).
+    split; [now apply Hwi|split; [exact N|]]. intros u Hu. destruct (B u Hu) as [c Hc']. exists c. now rewrite Hh.
   - intros h id k H. destruct (reqs_ok0 h id k H) as [u [c Hc']]. exists u, c. now rewrite Hh.
 Qed.
 
@@ -258,7 +265,8 @@ Definition chan_facts (c : chan) : Prop :=
   (forall w, c_cw c = Some w -> c_live c = true /\ cw_st (c_kind c) (c_st c) = true) /\
   (forall w, c_dw c = Some w -> c_live c = true /\ dw_st (c_kind c) (c_st c) = true) /\
   (c_drained c = false -> c_kind c = KLe /\ c_live c = true /\ c_st c = SConnected) /\
-  (c_live c = false -> le_open_st (c_st c) = false /\ cl_abortable_st (c_st c) = false).
+  (c_live c = false -> le_open_st (c_st c) = false /\ cl_abortable_st (c_st c) = false) /\
+  kind_st (c_kind c) (c_st c) = true.
 
 Definition member_ok (c : chan) (h id : Z) : Prop :=
   c_kind c = KLe /\ c_conn c = h /\ c_st c = SInit /\ c_ref c = id /\ c_live c = true /\
@@ -294,7 +302,8 @@ Section Frame.
   Hypothesis PE1 : NoDup (map fst (m_pend m')).
   Hypothesis PE2 : forall h id w us, tget h id (m_pend m') = Some (w, us) ->
                    (tget h id (m_pend m) = Some (w, us) /\ wget m' w = wget m w) \/
-                   (waiter_is m' w WOpenEnh h id /\ forall u, In u us -> chg u <> None).
+                   (waiter_is m' w WOpenEnh h id /\ NoDup us /\
+                    forall u, In u us -> chg u = None -> exists c, hget m u = Some c /\ member_ok c h id).
   Hypothesis PE3 : forall h id w us u c', tget h id (m_pend m') = Some (w, us) -> In u us ->
                    chg u = Some c' -> member_ok c' h id.
   Hypothesis PE4 : forall u c, chg u = None -> hget m u = Some c -> in_use m' u c = in_use m u c.
@@ -320,7 +329,7 @@ Section Frame.
 
   Lemma inv_frame : Inv m'.
   Proof.
-    destruct I as [i1 i2 i3 i4 ichs ile ireg ilec icw idw idr idead iown ipend ireqs].
+    destruct I as [i1 i2 i3 i4 ichs ile ireg ilec icw idw idr idead iks iown ipend ireqs].
     constructor; auto.
     - (* chs_pt *) intros h k u H. rewrite Hheap. destruct (chg u) as [c'|] eqn:E.
       + exists c'. destruct (CH3 _ _ _ _ E H). subst. auto.
@@ -335,18 +344,21 @@ Section Frame.
       + inversion H; subst. eauto.
       + apply LE2; auto.
     - (* ch_cw *) intros u c w H Hc. rewrite Hheap in H. destruct (chg u) as [c'|] eqn:E.
-      + inversion H; subst. destruct (Hfacts _ _ E) as (F1 & _ & _ & _). destruct (F1 _ Hc). eauto.
+      + inversion H; subst. destruct (Hfacts _ _ E) as (F1 & _ & _ & _ & _). destruct (F1 _ Hc). eauto.
       + destruct (icw u c w H Hc) as (A & B & Wi). repeat split; auto.
         unfold waiter_is in *. rewrite (W2 u c w E H); auto.
     - (* ch_dw *) intros u c w H Hc. rewrite Hheap in H. destruct (chg u) as [c'|] eqn:E.
-      + inversion H; subst. destruct (Hfacts _ _ E) as (_ & F1 & _ & _). destruct (F1 _ Hc). eauto.
+      + inversion H; subst. destruct (Hfacts _ _ E) as (_ & F1 & _ & _ & _). destruct (F1 _ Hc). eauto.
       + destruct (idw u c w H Hc) as (A & B & Wi). repeat split; auto.
         unfold waiter_is in *. rewrite (W2 u c w E H); auto.
     - (* ch_dr *) intros u c H Hd. rewrite Hheap in H. destruct (chg u) as [c'|] eqn:E.
-      + inversion H; subst. destruct (Hfacts _ _ E) as (_ & _ & F & _). auto.
+      + inversion H; subst. destruct (Hfacts _ _ E) as (_ & _ & F & _ & _). auto.
       + eauto.
     - (* ch_dead *) intros u c H Hd. rewrite Hheap in H. destruct (chg u) as [c'|] eqn:E.
-      + inversion H; subst. destruct (Hfacts _ _ E) as (_ & _ & _ & F). auto.
+      + inversion H; subst. destruct (Hfacts _ _ E) as (_ & _ & _ & F & _). auto.
+      + eauto.
+    - (* ch_ks *) intros u c H. rewrite Hheap in H. destruct (chg u) as [c'|] eqn:E.
+      + inversion H; subst. destruct (Hfacts _ _ E) as (_ & _ & _ & _ & F). auto.
       + eauto.
     - (* w_own *) intros w x' H Ho. change (owner_ok m' w x').
       destruct (wget m w) as [x|] eqn:Ew; [|eauto].
@@ -361,11 +373,13 @@ Section Frame.
       assert (Hmem : forall u, In u us -> (exists c, hget m' u = Some c /\ member_ok c h id)).
       { intros u Hu. rewrite Hheap. destruct (chg u) as [c'|] eqn:E.
         - exists c'. split; auto. eapply PE3; eauto.
-        - destruct (PE2 _ _ _ _ H) as [[Ho _]|[_ Hc]]; [|exfalso; eapply Hc; eauto].
-          destruct (ipend _ _ _ _ Ho) as [_ B]. destruct (B u Hu) as [c Hc]. exists c. unfold member_ok. tauto. }
-      split.
+        - destruct (PE2 _ _ _ _ H) as [[Ho _]|(_ & _ & Hc)]; [|eauto].
+          destruct (ipend _ _ _ _ Ho) as (_ & _ & B). destruct (B u Hu) as [c Hc]. exists c. unfold member_ok. tauto. }
+      split; [|split].
       + destruct (PE2 _ _ _ _ H) as [[Ho Hw]|[Hw _]]; auto.
         destruct (ipend _ _ _ _ Ho) as [A _]. unfold waiter_is in *. now rewrite Hw.
+      + destruct (PE2 _ _ _ _ H) as [[Ho _]|(_ & N & _)]; auto.
+        destruct (ipend _ _ _ _ Ho) as (_ & N & _). exact N.
       + intros u Hu. destruct (Hmem u Hu) as [c [Hc M]]. exists c. unfold member_ok in M. tauto.
   Qed.
 End Frame.
@@ -582,7 +596,7 @@ Section ChanStep.
       rewrite Hle, Hconn, E2. destruct (le_reg c) eqn:E1.
       + rewrite Hdc by auto. now apply Hlec.
       + rewrite tget_tset, !Z.eqb_refl. reflexivity.
-    - (* PE3 *) intros h id w us H Hin. destruct (pend_ok m I _ _ _ _ H) as [_ B].
+    - (* PE3 *) intros h id w us H Hin. destruct (pend_ok m I _ _ _ _ H) as (_ & _ & B).
       destruct (B u Hin) as [c0 (H0 & M)]. rewrite Hu in H0. inversion H0; subst c0.
       destruct M as (M1 & M2 & M3 & M4 & M5 & M6 & M7). destruct (Hinit M3) as (N1 & N2 & N3 & N4 & N5).
       unfold member_ok. rewrite Hk, Hconn, N1, N2, N3. tauto.
@@ -652,6 +666,7 @@ Proof.
   - eapply ch_dr; eauto.
   - eapply ch_dead; eauto.
   - eapply ch_dead; eauto.
+  - eapply ch_ks; eauto.
 Qed.
 
 Lemma live_of_open m u c : Inv m -> hget m u = Some c ->
@@ -682,14 +697,14 @@ Lemma inv_out m u c cr pe d :
   (d = false -> c_kind c = KLe /\ c_st c = SConnected) ->
   Inv (hupd m u (fun _ => set_out c cr pe d)).
 Proof.
-  intros I Hu Hd. pose proof (inv_chan_facts m u c I Hu) as (F1 & F2 & F3 & F4).
+  intros I Hu Hd. pose proof (inv_chan_facts m u c I Hu) as (F1 & F2 & F3 & F4 & F5).
   refine (inv_chan_step m _ u c (set_out c cr pe d) O_ERROR O_ERROR true I Hu _ _ _ _ _ _ _ _ _ _ _ _ _ _ _ _ _ _ _ _).
   - t_heap Hu.
   - reflexivity.
   - reflexivity.
   - reflexivity.
   - reflexivity.
-  - unfold chan_facts; cbn. split; [exact F1|split; [exact F2|split; [|exact F4]]].
+  - unfold chan_facts; cbn. split; [exact F1|split; [exact F2|split; [|split; [exact F4|exact F5]]]].
     intros ->. destruct Hd as [A B]; auto. repeat split; auto. eapply live_of_open; eauto. left. now rewrite B.
   - auto.
   - autorewrite with acc. change (in_use m u (set_out c cr pe d)) with (in_use m u c). destruct (in_use m u c); auto.
@@ -745,7 +760,7 @@ Lemma inv_le_closed m u c (fl : bool) :
             u (fun c => if fl then flush_output (set_dw c None) else set_dw c None)).
 Proof.
   intros I Hu Ek Hreg Hs1 Hs2 Hs3.
-  pose proof (inv_chan_facts m u c I Hu) as F. pose proof F as (F1 & F2 & F3 & F4).
+  pose proof (inv_chan_facts m u c I Hu) as F. pose proof F as (F1 & F2 & F3 & F4 & F5).
   assert (Hin : in_use m u c = true) by (apply (ch_reg m I u c Hu); auto).
   assert (Hcw : c_cw c = None).
   { apply no_cw_unless; auto. rewrite Ek. destruct (c_st c); auto; congruence. }
@@ -764,7 +779,7 @@ Proof.
   - exact E3.
   - exact E4.
   - unfold chan_facts. rewrite E6, E7, E5, Hcw.
-    split; [discriminate|split; [discriminate|split; [|cbn; auto]]].
+    split; [discriminate|split; [discriminate|split; [|split; [cbn; auto|rewrite E1, Ek; reflexivity]]]].
     intros Hd; destruct (E10 Hd) as [Hf Hd']; destruct (F3 Hd') as (_ & _ & Hc); exfalso; now apply Hs3.
   - congruence.
   - autorewrite with acc. rewrite (is_uid_chs m u c I Hu), Hin, Hin'. reflexivity.
@@ -801,19 +816,19 @@ Proof.
     apply wget_bound in Hx. unfold wuid in *. lia. }
   assert (Hwi : forall w k' h' r', waiter_is m w k' h' r' -> waiter_is (wnew m o k h r) w k' h' r').
   { intros w k' h' r' [x (A & B)]. exists x. split; auto. }
-  destruct I as [i1 i2 i3 i4 ichs ile ireg ilec icw idw idr idead iown ipend ireqs]. constructor; try assumption.
+  destruct I as [i1 i2 i3 i4 ichs ile ireg ilec icw idw idr idead iks iown ipend ireqs]. constructor; try assumption.
   - intros u c w Hu Hc. destruct (icw u c w Hu Hc) as (A & B & C). auto.
   - intros u c w Hu Hc. destruct (idw u c w Hu Hc) as (A & B & C). auto.
   - intros w x Hx Hp. rewrite wget_wnew in Hx. destruct (Z.eqb_spec w (wuid m)).
     + inversion Hx; subst x. cbn in Hp. congruence.
     + apply (iown w x Hx Hp).
-  - intros h' id w us Hp. destruct (ipend h' id w us Hp) as [A B]. split; auto.
+  - intros h' id w us Hp. destruct (ipend h' id w us Hp) as (A & N & B). split; auto.
 Qed.
 
 (* dropping a pending request entry *)
 Lemma inv_reqs_del m h id : Inv m -> Inv (with_reqs m (tdel h id (m_reqs m))).
 Proof.
-  intros I. destruct I as [i1 i2 i3 i4 ichs ile ireg ilec icw idw idr idead iown ipend ireqs]. constructor; try assumption; cbn.
+  intros I. destruct I as [i1 i2 i3 i4 ichs ile ireg ilec icw idw idr idead iks iown ipend ireqs]. constructor; try assumption; cbn.
   - now apply NoDup_tdel.
   - intros h' id' k H. rewrite tget_tdel in H. destruct (Z.eqb h' h && Z.eqb id' id); [discriminate|].
     apply (ireqs h' id' k H).
@@ -907,12 +922,13 @@ Section Closed.
     { unfold in_use. destruct (c_st c'); try discriminate; cbn; apply andb_false_r. }
     assert (Hle' : le_reg c' = false).
     { unfold le_reg. destruct (c_kind c'); auto. destruct (c_st c'); try discriminate; cbn; apply andb_false_r. }
-    pose proof (inv_chan_facts m u c I Hu) as (F1 & F2 & F3 & F4).
+    pose proof (inv_chan_facts m u c I Hu) as (F1 & F2 & F3 & F4 & F5).
     refine (inv_chan_step m m' u c c' o1 o2 keepreq I Hu Hheap Hk Hconn Hscid Hlive _ _ _ _ _ _ Hpend _ Hreqs _ _ Ho1 Ho2 _ _).
     - unfold chan_facts. rewrite Hcw', Hdw'.
-      split; [discriminate|split; [discriminate|split]].
+      split; [discriminate|split; [discriminate|split; [|split]]].
       + intros Hd. destruct (Hdr Hd) as [A B]. destruct (F3 A) as (_ & _ & C). congruence.
       + intros _. destruct (c_st c'); try discriminate; auto.
+      + destruct (c_kind c'), (c_st c'); try discriminate; reflexivity.
     - congruence.
     - rewrite Hin', Hin. exact Hchs.
     - rewrite Hle'. rewrite Hle. destruct (le_reg c); reflexivity.
@@ -964,7 +980,7 @@ Lemma init_in_use_le m u c : Inv m -> hget m u = Some c -> c_st c = SInit -> in_
 Proof.
   intros I Hu E H. unfold in_use in H. rewrite E in H. apply andb_true_iff in H. destruct H as [_ H].
   destruct (tget (c_conn c) (c_ref c) (m_pend m)) as [[w us]|] eqn:Ep; [|discriminate].
-  apply memz_In in H. destruct (pend_ok m I _ _ _ _ Ep) as [_ B]. destruct (B u H) as [c0 (A & K & _)].
+  apply memz_In in H. destruct (pend_ok m I _ _ _ _ Ep) as (_ & _ & B). destruct (B u H) as [c0 (A & K & _)].
   rewrite Hu in A. now inversion A; subst.
 Qed.
 
@@ -975,7 +991,7 @@ Lemma inv_cl_disc_rsp m u c :
                                u (fun c => set_dw c None)) u c).
 Proof.
   intros I Hu Ek Es.
-  pose proof (inv_chan_facts m u c I Hu) as F. pose proof F as (F1 & F2 & F3 & F4).
+  pose proof (inv_chan_facts m u c I Hu) as F. pose proof F as (F1 & F2 & F3 & F4 & F5).
   assert (El : c_live c = true) by (eapply live_of_open; eauto; right; now rewrite Es).
   assert (Hin : in_use m u c = true) by (unfold in_use; rewrite El, Es; reflexivity).
   assert (Hcw : c_cw c = None) by (apply no_cw_unless; auto; now rewrite Ek, Es).
@@ -1001,7 +1017,7 @@ Lemma inv_cl_disc_req m u c :
   Inv (if wpending m (c_cw c) then cl_connect_failed m4 u c else m4).
 Proof.
   intros I Hu Ek Hreg m4.
-  pose proof (inv_chan_facts m u c I Hu) as F. pose proof F as (F1 & F2 & F3 & F4).
+  pose proof (inv_chan_facts m u c I Hu) as F. pose proof F as (F1 & F2 & F3 & F4 & F5).
   assert (Hin : in_use m u c = true) by (eapply reg_in_use; eauto).
   destruct (wpending m (c_cw c)) eqn:Ew.
   - apply (inv_closed_gen m _ u c (set_cw (set_dw (set_st c SClosed) None) None) O_ERROR O_RESULT true I Hu Hin);
@@ -1046,7 +1062,7 @@ Lemma inv_abort m u : Inv m -> ev_ok m (EAbort u) = true -> Inv (abort_chan m u)
 Proof.
   intros I Hok. unfold abort_chan. cbn in Hok.
   destruct (hget m u) as [c|] eqn:Hu; [|auto].
-  pose proof (inv_chan_facts m u c I Hu) as F. pose proof F as (F1 & F2 & F3 & F4).
+  pose proof (inv_chan_facts m u c I Hu) as F. pose proof F as (F1 & F2 & F3 & F4 & F5).
   destruct (c_kind c) eqn:Ek.
   - (* LE *)
     assert (Hcw : c_cw c = None).
@@ -1174,7 +1190,7 @@ Proof.
   destruct (tget h cid (m_le m)) as [u|] eqn:Et; [|auto].
   destruct (hget m u) as [c|] eqn:Hu; [|auto]. cbn [fst].
   unfold process_output. cbn.
-  pose proof (inv_chan_facts m u c I Hu) as (F1 & F2 & F3 & F4).
+  pose proof (inv_chan_facts m u c I Hu) as (F1 & F2 & F3 & F4 & F5).
   replace (set_out (set_out c (c_credits c + n) (c_pending c) (c_drained c)) _ _ _)
     with (set_out c (c_credits c + n - po_sent (set_out c (c_credits c + n) (c_pending c) (c_drained c)))
                     (c_pending c - po_sent (set_out c (c_credits c + n) (c_pending c) (c_drained c)))
@@ -1214,7 +1230,7 @@ Proof.
   rewrite R1 in *. change (hget (with_reqs m (tdel h id (m_reqs m))) u) with (hget m u).
   rewrite Hu in *. rewrite Ek in Hok. cbn in Hok.
   destruct (chs_self m u c h scid I Hu R1) as [-> ->].
-  pose proof (inv_chan_facts m u c I Hu) as F. pose proof F as (F1 & F2 & F3 & F4).
+  pose proof (inv_chan_facts m u c I Hu) as F. pose proof F as (F1 & F2 & F3 & F4 & F5).
   assert (Hin : in_use m u c = true) by (eapply reg_in_use; eauto).
   assert (El : c_live c = true) by (eapply in_use_live; eauto).
   assert (Hdw : c_dw c = None) by (apply no_dw_unless; auto; now rewrite Ek, Es).
@@ -1229,7 +1245,7 @@ Proof.
       subst c'; cbn; auto; try discriminate.
     + t_heap Hu.
     + unfold chan_facts; cbn. rewrite Hdw, Ek, El.
-      split; [discriminate|split; [discriminate|split; [auto|discriminate]]].
+      split; [discriminate|split; [discriminate|split; [auto|split; [discriminate|reflexivity]]]].
     + autorewrite with acc. unfold in_use; cbn. rewrite El. reflexivity.
     + autorewrite with acc. unfold le_reg; cbn. rewrite Ek, Es, El. reflexivity.
     + unfold le_reg. rewrite Ek, Es. cbn. rewrite andb_false_r. discriminate.
@@ -1280,13 +1296,13 @@ Lemma inv_cl_open m u c :
   Inv (hupd (wres_opt m (c_cw c) O_RESULT) u (fun c => set_cw (set_st c SOpen) None)).
 Proof.
   intros I Hu Ek Hin Es.
-  pose proof (inv_chan_facts m u c I Hu) as F. pose proof F as (F1 & F2 & F3 & F4).
+  pose proof (inv_chan_facts m u c I Hu) as F. pose proof F as (F1 & F2 & F3 & F4 & F5).
   assert (El : c_live c = true) by (eapply in_use_live; eauto).
   assert (Hdw : c_dw c = None) by (apply no_dw_unless; auto; rewrite Ek; destruct Es as [-> | ->]; reflexivity).
   refine (inv_chan_step m _ u c (set_cw (set_st c SOpen) None) O_RESULT O_ERROR true I Hu _ _ _ _ _ _ _ _ _ _ _ _ _ _ _ _ _ _ _ _);
     cbn; auto; try discriminate.
   - t_heap Hu.
-  - unfold chan_facts; cbn. rewrite Hdw, El. split; [discriminate|split; [discriminate|split; [|discriminate]]].
+  - unfold chan_facts; cbn. rewrite Hdw, El, Ek. split; [discriminate|split; [discriminate|split; [|split; [discriminate|reflexivity]]]].
     intros Hd. destruct (F3 Hd) as (K & _). congruence.
   - autorewrite with acc. unfold in_use at 1; cbn. rewrite El, Hin. reflexivity.
   - autorewrite with acc. unfold le_reg; cbn. rewrite Ek. reflexivity.
@@ -1301,19 +1317,19 @@ Qed.
 (* a state change that keeps the channel registered and its waiters untouched *)
 Lemma inv_cl_st m u c s d :
   Inv m -> hget m u = Some c -> c_kind c = KCl -> in_use m u c = true ->
-  reg_st s = true ->
+  reg_st s = true -> le_open_st s = false ->
   (c_cw c <> None -> cw_st KCl s = true) -> (c_dw c <> None -> dw_st KCl s = true) ->
   Inv (hupd m u (fun c => set_st (set_dcid c d) s)).
 Proof.
-  intros I Hu Ek Hin Hs Hc Hd.
-  pose proof (inv_chan_facts m u c I Hu) as F. pose proof F as (F1 & F2 & F3 & F4).
+  intros I Hu Ek Hin Hs Hlo Hc Hd.
+  pose proof (inv_chan_facts m u c I Hu) as F. pose proof F as (F1 & F2 & F3 & F4 & F5).
   assert (El : c_live c = true) by (eapply in_use_live; eauto).
   apply (inv_hupd_fun m u c _ Hu).
   apply inv_upd_same with (c := c); cbn; auto.
   - unfold le_reg. rewrite Ek. discriminate.
   - unfold in_use at 1; cbn. rewrite El, Hin. destruct s; try discriminate; reflexivity.
   - unfold le_reg; cbn. now rewrite Ek.
-  - unfold chan_facts; cbn. rewrite Ek, El. split; [|split; [|split; [|discriminate]]].
+  - unfold chan_facts; cbn. rewrite Ek, El. split; [|split; [|split; [|split; [discriminate|cbn; now rewrite Hlo]]]].
     + intros w Hw. split; auto. apply Hc. congruence.
     + intros w Hw. split; auto. apply Hd. congruence.
     + intros Hdr. destruct (F3 Hdr) as (K & _). congruence.
@@ -1327,7 +1343,7 @@ Proof.
   intros I. unfold recv_conn_rsp.
   destruct (find_cl m h scid) as [[u c]|] eqn:Ef; [|auto].
   destruct (cl_found m h scid u c I Ef) as (Hu & Ek & Ec & Esc & Hin & El & Hle).
-  pose proof (inv_chan_facts m u c I Hu) as F. pose proof F as (F1 & F2 & F3 & F4).
+  pose proof (inv_chan_facts m u c I Hu) as F. pose proof F as (F1 & F2 & F3 & F4 & F5).
   destruct (c_st c) eqn:Es; auto.
   assert (Hdw : c_dw c = None) by (apply no_dw_unless; auto; now rewrite Ek, Es).
   destruct (Z.eqb result R_OK); cbn [fst].
@@ -1355,13 +1371,13 @@ Qed.
 
 Lemma inv_cl_st0 m u c s :
   Inv m -> hget m u = Some c -> c_kind c = KCl -> in_use m u c = true ->
-  reg_st s = true ->
+  reg_st s = true -> le_open_st s = false ->
   (c_cw c <> None -> cw_st KCl s = true) -> (c_dw c <> None -> dw_st KCl s = true) ->
   Inv (hupd m u (fun c => set_st c s)).
 Proof.
-  intros I Hu Ek Hin Hs Hc Hd. apply (inv_hupd_fun m u c _ Hu).
+  intros I Hu Ek Hin Hs Hlo Hc Hd. apply (inv_hupd_fun m u c _ Hu).
   replace (set_st c s) with (set_st (set_dcid c (c_dcid c)) s) by (destruct c; reflexivity).
-  pose proof (inv_cl_st m u c s (c_dcid c) I Hu Ek Hin Hs Hc Hd) as H.
+  pose proof (inv_cl_st m u c s (c_dcid c) I Hu Ek Hin Hs Hlo Hc Hd) as H.
   revert H. apply inv_ext; try (autorewrite with acc; reflexivity).
   - intros u'. autorewrite with acc. destruct (Z.eqb_spec u' u); subst; rewrite ?Hu; reflexivity.
   - intros w. now autorewrite with acc.
@@ -1390,7 +1406,7 @@ Proof.
   intros I. unfold recv_conf_req.
   destruct (find_cl m h dcid) as [[u c]|] eqn:Ef; [|auto].
   destruct (cl_found m h dcid u c I Ef) as (Hu & Ek & Ec & Esc & Hin & El & Hle).
-  pose proof (inv_chan_facts m u c I Hu) as F. pose proof F as (F1 & F2 & F3 & F4).
+  pose proof (inv_chan_facts m u c I Hu) as F. pose proof F as (F1 & F2 & F3 & F4 & F5).
   destruct (match c_st c with SWaitConfigReqRsp | SWaitConfigReq => true | _ => false end) eqn:Ecfg;
     cbn [negb fst]; [|auto].
   assert (Hdw : c_dw c = None).
@@ -1442,7 +1458,7 @@ Proof.
   destruct (negb _) eqn:Eok; cbn [fst].
   { apply inv_wnew_done; auto. discriminate. }
   apply negb_false_iff in Eok.
-  pose proof (inv_chan_facts m u c I Hu) as F. pose proof F as (F1 & F2 & F3 & F4).
+  pose proof (inv_chan_facts m u c I Hu) as F. pose proof F as (F1 & F2 & F3 & F4 & F5).
   set (w := wuid m).
   set (f := fun c0 : chan => match c_kind c0 with
                               | KLe => flush_output (set_st (set_dw c0 (Some w)) SDisconnecting)
@@ -1459,15 +1475,16 @@ Proof.
   assert (Ef : c_kind (f c) = c_kind c /\ c_conn (f c) = c_conn c /\ c_scid (f c) = c_scid c /\
                c_dcid (f c) = c_dcid c /\ c_live (f c) = true /\ c_cw (f c) = None /\ c_dw (f c) = Some w /\
                c_ref (f c) = c_ref c /\ dw_st (c_kind c) (c_st (f c)) = true /\ reg_st (c_st (f c)) = true /\
-               le_reg (f c) = le_reg c /\ (c_drained (f c) = false -> c_kind c = KCl /\ c_drained c = false)).
+               le_reg (f c) = le_reg c /\ (c_drained (f c) = false -> c_kind c = KCl /\ c_drained c = false) /\
+               kind_st (c_kind c) (c_st (f c)) = true).
   { subst f. cbn. unfold le_reg. destruct (c_kind c) eqn:Ek, (c_st c); try discriminate; cbn;
       rewrite ?Ek, ?El; repeat split; auto; try discriminate. }
-  destruct Ef as (E1 & E2 & E3 & E4 & E5 & E6 & E7 & E8 & E9 & E10 & E11 & E12).
+  destruct Ef as (E1 & E2 & E3 & E4 & E5 & E6 & E7 & E8 & E9 & E10 & E11 & E12 & E13).
   assert (Hin' : in_use m u (f c) = true).
   { unfold in_use. rewrite E5. destruct (c_st (f c)); try discriminate; auto. }
   apply (inv_frame1 m _ u (f c) I).
   - t_heap Hu.
-  - unfold chan_facts. rewrite E6, E7, E5, E1. split; [discriminate|split; [|split; [|discriminate]]].
+  - unfold chan_facts. rewrite E6, E7, E5, E1. split; [discriminate|split; [|split; [|split; [discriminate|exact E13]]]].
     + intros w0 _. auto.
     + intros Hd. destruct (E12 Hd) as [K Hd']. destruct (F3 Hd') as (K' & _). congruence.
   - autorewrite with acc. apply (nd_chs m I).
@@ -1482,7 +1499,7 @@ Proof.
   - autorewrite with acc. intros A B C. rewrite E2, E4. apply (le_reg_tget m u c I Hu).
     rewrite <- E11. apply le_reg_iff. auto.
   - autorewrite with acc. reflexivity.
-  - intros h id w0 us H Hm. destruct (pend_ok m I _ _ _ _ H) as [_ B]. destruct (B u Hm) as [c0 (A & _ & _ & S & _)].
+  - intros h id w0 us H Hm. destruct (pend_ok m I _ _ _ _ H) as (_ & _ & B). destruct (B u Hm) as [c0 (A & _ & _ & S & _)].
     rewrite Hu in A. inversion A; subst c0. destruct (c_kind c), (c_st c); discriminate.
   - autorewrite with acc. apply (nd_reqs m I).
   - intros h id k H. autorewrite with acc in H. destruct (reqs_ok m I _ _ _ H) as [u0 [c0 (R1 & R2 & R3 & R4 & R5)]].
@@ -1554,7 +1571,7 @@ Section NewChan.
       + intros H. exfalso; eauto.
     - (* LE4 *) intros A B C. assert (E : le_reg c' = true) by (apply le_reg_iff; auto).
       rewrite Hle, E. fold h. rewrite tget_tset, !Z.eqb_refl. reflexivity.
-    - (* PE3 *) intros h1 id w us H Hin. destruct (pend_ok m I _ _ _ _ H) as [_ B].
+    - (* PE3 *) intros h1 id w us H Hin. destruct (pend_ok m I _ _ _ _ H) as (_ & _ & B).
       destruct (B u Hin) as [c0 (A & _)]. congruence.
     - (* RQ1 *) rewrite Hreqs. destruct newreq; [apply NoDup_tset|]; apply (nd_reqs m I).
     - (* RQ2 *) intros h1 id k1 H. rewrite Hreqs in H.
@@ -1619,7 +1636,7 @@ Proof.
   intros I E. unfold in_use. rewrite E.
   destruct (tget (c_conn c0) (c_ref c0) (m_pend m)) as [[w us]|] eqn:Ep; [|apply andb_false_r].
   destruct (memz (huid m) us) eqn:Em; [|apply andb_false_r].
-  apply memz_In in Em. destruct (pend_ok m I _ _ _ _ Ep) as [_ B]. destruct (B _ Em) as [c1 (A & _)].
+  apply memz_In in Em. destruct (pend_ok m I _ _ _ _ Ep) as (_ & _ & B). destruct (B _ Em) as [c1 (A & _)].
   rewrite hget_huid in A. discriminate.
 Qed.
 
@@ -1634,7 +1651,7 @@ Proof.
   set (c' := set_st (set_cw c0 (Some (wuid m))) SWaitConnectRsp).
   apply (inv_new_chan m _ c' true None (Some (mkW O_PENDING WOpen h (huid m))) I); cbn; auto.
   - intros u'. autorewrite with acc. destruct (Z.eqb_spec u' (huid m)); subst; cbn; reflexivity.
-  - unfold chan_facts; cbn. split; [auto|split; [discriminate|split; discriminate]].
+  - unfold chan_facts; cbn. split; [auto|split; [discriminate|split; [discriminate|split; [discriminate|reflexivity]]]].
   - autorewrite with acc. reflexivity.
   - autorewrite with acc. reflexivity.
   - autorewrite with acc. reflexivity.
@@ -1664,7 +1681,7 @@ Proof.
   - (* identifier still in use: the channel object is created and dropped *)
     apply (inv_new_chan m _ c0 false None (Some (mkW O_ERROR WOpen h (huid m))) I); cbn; auto.
     + intros u'. autorewrite with acc. reflexivity.
-    + unfold chan_facts; cbn. split; [discriminate|split; [discriminate|split; discriminate]].
+    + unfold chan_facts; cbn. split; [discriminate|split; [discriminate|split; [discriminate|split; [discriminate|reflexivity]]]].
     + rewrite tdel_tset. now apply tdel_absent.
     + change (in_use m (huid m) c0 = false). now apply in_use_new_init.
     + discriminate.
@@ -1676,7 +1693,7 @@ Proof.
     set (c' := set_ref (set_st (set_cw c0 (Some (wuid m))) SConnecting) i).
     apply (inv_new_chan m _ c' true (Some i) (Some (mkW O_PENDING WOpen h (huid m))) I); cbn; auto.
     + intros u'. autorewrite with acc. destruct (Z.eqb_spec u' (huid m)); subst; cbn; reflexivity.
-    + unfold chan_facts; cbn. split; [auto|split; [discriminate|split; discriminate]].
+    + unfold chan_facts; cbn. split; [auto|split; [discriminate|split; [discriminate|split; [discriminate|reflexivity]]]].
     + autorewrite with acc. reflexivity.
     + autorewrite with acc. reflexivity.
     + autorewrite with acc. reflexivity.
@@ -1699,7 +1716,7 @@ Proof.
   intros I Hc Hl c' m1 m2.
   apply (inv_new_chan m _ c' true None None I); subst m2 m1 c'; cbn; auto.
   - intros u'. autorewrite with acc. reflexivity.
-  - unfold chan_facts; cbn. split; [discriminate|split; [discriminate|split; [auto|discriminate]]].
+  - unfold chan_facts; cbn. split; [discriminate|split; [discriminate|split; [auto|split; [discriminate|reflexivity]]]].
   - discriminate.
   - intros w. autorewrite with acc. destruct (Z.eqb_spec w (wuid m)); subst; auto using wget_wuid.
   - discriminate.
@@ -1715,10 +1732,1634 @@ Proof.
   set (c' := mkChan KCl h local scid SWaitConfigReqRsp mode 0 0 true None None 0 true).
   apply (inv_new_chan m _ c' true None None I); cbn; auto.
   - intros u'. autorewrite with acc. reflexivity.
-  - unfold chan_facts; cbn. split; [discriminate|split; [discriminate|split; discriminate]].
+  - unfold chan_facts; cbn. split; [discriminate|split; [discriminate|split; [discriminate|split; [discriminate|reflexivity]]]].
   - discriminate.
   - discriminate.
   - intros w. autorewrite with acc. destruct (Z.eqb_spec w (wuid m)); subst; auto using wget_wuid.
   - discriminate.
   - discriminate.
+Qed.
+(* ------------------------------------------------------------------ accepted LE / enhanced requests *)
+Lemma inv_accept_list h credits pairs : forall m,
+  Inv m -> NoDup (map fst pairs) -> NoDup (map snd pairs) ->
+  (forall s d, In (s, d) pairs -> tget h s (m_chs m) = None /\ tget h d (m_le m) = None) ->
+  Inv (fst (new_le_chans m h SConnected credits 0 true pairs)).
+Proof.
+  induction pairs as [|[s d] ps IH]; intros m I N1 N2 Hf; cbn [new_le_chans fst]; auto.
+  inversion N1 as [|? ? Hn1 N1']; subst. inversion N2 as [|? ? Hn2 N2']; subst.
+  destruct (Hf s d (or_introl eq_refl)) as [Hs Hd].
+  pose proof (inv_accept_le m h s d credits I Hs Hd) as I2. cbn zeta in I2.
+  match goal with |- Inv (fst (let '(m3, us) := new_le_chans ?mm _ _ _ _ _ _ in _)) =>
+    specialize (IH mm I2 N1' N2'); destruct (new_le_chans mm h SConnected credits 0 true ps) as [m3 us] eqn:E end.
+  cbn [fst] in *. apply IH.
+  intros s' d' Hin. destruct (Hf s' d' (or_intror Hin)) as [A B]. cbn.
+  rewrite !tget_tset, !tget_tdel.
+  assert (s' <> s) by (intros ->; apply Hn1; change s with (fst (s, d')); now apply in_map).
+  assert (d' <> d) by (intros ->; apply Hn2; change d with (snd (s', d)); now apply in_map).
+  rewrite !Z.eqb_refl. destruct (Z.eqb_spec s' s), (Z.eqb_spec d' d); try congruence. cbn. auto.
+Qed.
+
+Lemma inv_recv_le_req m h id psm scid credits : Inv m -> Inv (fst (recv_le_req m h id psm scid credits)).
+Proof.
+  intros I. unfold recv_le_req.
+  destruct (srv_get psm (m_lesrv m)); [|auto].
+  destruct (memz scid (tkeys h (m_le m))) eqn:Em; [auto|].
+  destruct (find_free_le (tkeys h (m_chs m))) as [local|] eqn:Ef; [|auto]. cbn [fst].
+  apply inv_accept_list; auto.
+  - cbn. constructor; auto. constructor.
+  - cbn. constructor; auto. constructor.
+  - intros s d [[= <- <-]|[]]. split.
+    + now apply find_free_le_fresh.
+    + apply memz_false in Em. destruct (tget h scid (m_le m)) eqn:E; auto. exfalso. apply Em. apply tkeys_tget. congruence.
+Qed.
+
+Lemma in_combine_fst {A B} (l1 : list A) (l2 : list B) x : In x (map fst (combine l1 l2)) -> In x l1.
+Proof. rewrite in_map_iff. intros [[a b] [<- H]]. eapply in_combine_l; eauto. Qed.
+Lemma in_combine_snd {A B} (l1 : list A) (l2 : list B) x : In x (map snd (combine l1 l2)) -> In x l2.
+Proof. rewrite in_map_iff. intros [[a b] [<- H]]. eapply in_combine_r; eauto. Qed.
+
+Lemma NoDup_combine_fst {A B} (l1 : list A) (l2 : list B) : NoDup l1 -> NoDup (map fst (combine l1 l2)).
+Proof.
+  revert l2. induction l1 as [|a l1 IH]; intros [|b l2] H; cbn; try constructor.
+  - inversion H; subst. intros Hi. apply in_combine_fst in Hi. auto.
+  - inversion H; subst. auto.
+Qed.
+Lemma NoDup_combine_snd {A B} (l1 : list A) (l2 : list B) : NoDup l2 -> NoDup (map snd (combine l1 l2)).
+Proof.
+  revert l2. induction l1 as [|a l1 IH]; intros [|b l2] H; cbn; try constructor.
+  - inversion H; subst. intros Hi. apply in_combine_snd in Hi. auto.
+  - inversion H; subst. auto.
+Qed.
+
+Lemma inv_recv_enh_req m h id psm credits scids :
+  Inv m -> frame_ok m h (FEnhReq id psm credits scids) = true ->
+  Inv (fst (recv_enh_req m h id psm credits scids)).
+Proof.
+  intros I Hok. cbn in Hok. apply nodupz_NoDup in Hok. unfold recv_enh_req.
+  destruct (srv_get psm (m_lesrv m)); [|auto].
+  destruct (any_mem scids (tkeys h (m_le m))) eqn:Em; [auto|].
+  destruct (find_free_le_n (tkeys h (m_chs m)) (length scids)) as [|l0 locals] eqn:Ef; [auto|]. cbn [fst].
+  apply inv_accept_list; auto.
+  - apply NoDup_combine_fst. rewrite <- Ef. unfold find_free_le_n. destruct (length scids); [constructor|].
+    apply find_free_n_NoDup.
+  - now apply NoDup_combine_snd.
+  - intros s d Hin. split.
+    + apply in_combine_l in Hin. rewrite <- Ef in Hin. unfold find_free_le_n in Hin.
+      destruct (length scids); [destruct Hin|]. eapply free_fresh; eauto.
+    + apply in_combine_r in Hin. rewrite any_mem_false in Em.
+      destruct (tget h d (m_le m)) eqn:E; auto. exfalso. apply (Em d Hin). apply tkeys_tget. congruence.
+Qed.
+(* ================================================================== link loss *)
+Definition down_us (m : mgr) (h : Z) : list Z :=
+  map snd (tconn h (m_chs m)) ++ map snd (tconn h (m_le m)).
+
+Lemma hget_map_from (f : Z -> chan -> chan) m u l :
+  m_heap m = l ->
+  (if u <? 0 then None else nth_error (map_from f 0 l) (Z.to_nat u)) = option_map (f u) (hget m u).
+Proof.
+  intros <-. unfold hget. destruct (Z.ltb_spec u 0); auto.
+  rewrite nth_error_map_from. rewrite Z.add_0_l, Z2Nat.id by lia. reflexivity.
+Qed.
+
+Lemma hget_down m h u : hget (do_down m h) u = option_map (down_chan h (down_us m h) u) (hget m u).
+Proof. unfold do_down, hget at 1. cbn [m_heap]. now apply hget_map_from. Qed.
+
+Lemma wget_down m h w :
+  wget (do_down m h) w =
+  option_map (fun x => if memz w (down_cancels m h (down_us m h)) then wres1 O_CANCELLED x
+                       else if memz w (down_results m (down_us m h)) then wres1 O_RESULT x else x) (wget m w).
+Proof.
+  unfold do_down, wget at 1. cbn [m_w]. unfold wget. destruct (Z.ltb_spec w 0); auto.
+  rewrite nth_error_map_from. rewrite Z.add_0_l, Z2Nat.id by lia. reflexivity.
+Qed.
+
+Lemma nth_hget m n c : nth_error (m_heap m) n = Some c <-> hget m (Z.of_nat n) = Some c.
+Proof. unfold hget. destruct (Z.ltb_spec (Z.of_nat n) 0); [lia|]. now rewrite Nat2Z.id. Qed.
+
+Lemma hget_nth m u c : hget m u = Some c -> exists n, u = Z.of_nat n /\ nth_error (m_heap m) n = Some c.
+Proof.
+  intros H. pose proof (hget_bound m u c H). exists (Z.to_nat u). split; [lia|].
+  unfold hget in H. destruct (Z.ltb_spec u 0); [lia|auto].
+Qed.
+
+Lemma In_opt_list o (w : Z) : In w (opt_list o) <-> o = Some w.
+Proof. destruct o; cbn; split; intros H; try tauto; try discriminate; [destruct H as [<-|[]]; auto|inversion H; auto]. Qed.
+
+Lemma down_cancels_spec m h us w :
+  In w (down_cancels m h us) <->
+  (exists u c, hget m u = Some c /\ c_cw c = Some w /\
+               match c_kind c with KLe => In u us | KCl => c_conn c = h end) \/
+  (exists id us', In (h, id, (w, us')) (m_pend m)).
+Proof.
+  unfold down_cancels. rewrite in_app_iff, In_flat_map_from, in_map_iff. split.
+  - intros [[n [c [Hn Hi]]]|[[[h' id] [w' us']] [Hw Hi]]].
+    + left. exists (Z.of_nat n), c. rewrite Z.add_0_l in Hi. split; [now apply nth_hget|].
+      destruct (c_kind c).
+      * destruct (memz (Z.of_nat n) us) eqn:E; [|destruct Hi]. apply memz_In in E. apply In_opt_list in Hi. auto.
+      * destruct (Z.eqb_spec (c_conn c) h); [|destruct Hi]. apply In_opt_list in Hi. auto.
+    + right. cbn in Hw. subst w'. apply In_tconn in Hi. cbn in Hi. destruct Hi as [Hi ->]. eauto.
+  - intros [[u [c (Hu & Hc & Hk)]]|[id [us' Hi]]].
+    + left. destruct (hget_nth m u c Hu) as [n [-> Hn]]. exists n, c. split; auto. rewrite Z.add_0_l.
+      destruct (c_kind c).
+      * apply memz_In in Hk. rewrite Hk. now apply In_opt_list.
+      * subst h. rewrite Z.eqb_refl. now apply In_opt_list.
+    + right. exists (h, id, (w, us')). split; auto. apply In_tconn. auto.
+Qed.
+
+Lemma down_results_spec m us w :
+  In w (down_results m us) <-> exists u c, hget m u = Some c /\ c_dw c = Some w /\ In u us.
+Proof.
+  unfold down_results. rewrite In_flat_map_from. split.
+  - intros [n [c [Hn Hi]]]. exists (Z.of_nat n), c. rewrite Z.add_0_l in Hi. split; [now apply nth_hget|].
+    destruct (memz (Z.of_nat n) us) eqn:E; [|destruct Hi]. apply memz_In in E. apply In_opt_list in Hi. auto.
+  - intros [u [c (Hu & Hc & Hk)]]. destruct (hget_nth m u c Hu) as [n [-> Hn]]. exists n, c. split; auto.
+    rewrite Z.add_0_l. apply memz_In in Hk. rewrite Hk. now apply In_opt_list.
+Qed.
+
+Lemma in_use_le_open m u c : c_live c = true -> le_open_st (c_st c) = true -> in_use m u c = true.
+Proof. intros A B. unfold in_use. rewrite A. destruct (c_st c); try discriminate; reflexivity. Qed.
+
+Lemma down_us_spec m h u : Inv m ->
+  (In u (down_us m h) <-> exists c, hget m u = Some c /\ c_conn c = h /\ in_use m u c = true).
+Proof.
+  intros I. unfold down_us. rewrite in_app_iff, !in_map_iff. split.
+  - intros [[[[h' k] u'] [Hs Hi]]|[[[h' k] u'] [Hs Hi]]]; cbn in Hs; subst u'; apply In_tconn in Hi; cbn in Hi;
+      destruct Hi as [Hi ->].
+    + apply (In_tget _ _ _ _ (nd_chs m I)) in Hi. destruct (chs_pt m I _ _ _ Hi) as [c (A & B & C)].
+      exists c. repeat split; auto. apply (ch_reg m I u c A). now rewrite B, C.
+    + apply (In_tget _ _ _ _ (nd_le m I)) in Hi. destruct (le_pt m I _ _ _ Hi) as [c (A & B & C & D & E & F)].
+      exists c. repeat split; auto. now apply in_use_le_open.
+  - intros [c (A & B & C)]. left. apply (ch_reg m I u c A) in C. apply tget_In in C.
+    exists (c_conn c, c_scid c, u). split; auto. apply In_tconn. auto.
+Qed.
+
+Lemma wres1_notpending o x : w_out x <> O_PENDING -> wres1 o x = x.
+Proof. intros H. unfold wres1. destruct (Z.eqb_spec (w_out x) O_PENDING); congruence. Qed.
+Lemma wres1_out o x : w_out x = O_PENDING -> w_out (wres1 o x) = o.
+Proof. intros H. unfold wres1. rewrite H. reflexivity. Qed.
+
+(* what abort()/cancellation leaves of a channel of the lost connection *)
+Lemma down_chan_facts m h u c : Inv m -> hget m u = Some c -> c_conn c = h ->
+  let c' := down_chan h (down_us m h) u c in
+  c_kind c' = c_kind c /\ c_conn c' = c_conn c /\ c_scid c' = c_scid c /\ c_live c' = false /\
+  c_cw c' = None /\ c_dw c' = None /\ c_drained c' = true /\
+  le_open_st (c_st c') = false /\ cl_abortable_st (c_st c') = false.
+Proof.
+  intros I Hu Hc. pose proof (inv_chan_facts m u c I Hu) as (F1 & F2 & F3 & F4 & F5).
+  pose proof (down_us_spec m h u I) as Hus.
+  unfold down_chan. rewrite Hc, Z.eqb_refl.
+  destruct (memz u (down_us m h)) eqn:Em.
+  - (* filed under the handle: aborted *)
+    unfold aborted. destruct (c_kind c) eqn:Ek; cbn; rewrite ?Ek; cbn.
+    + unfold kind_st in F5. apply negb_true_iff in F5.
+      destruct (le_open_st (c_st c)) eqn:Eo; cbn; repeat split; auto.
+    + unfold kind_st in F5. apply negb_true_iff in F5.
+      assert (Hd : c_drained c = true).
+      { destruct (c_drained c) eqn:Ed; auto. destruct (F3 eq_refl) as (K & _). congruence. }
+      destruct (cl_abortable_st (c_st c)) eqn:Eo; cbn; repeat split; auto.
+  - (* not in use *)
+    apply memz_false in Em.
+    assert (Hnu : in_use m u c = false).
+    { destruct (in_use m u c) eqn:E; auto. exfalso. apply Em. apply Hus. eauto. }
+    assert (Hcw : c_kind c = KLe -> c_cw c = None).
+    { intros Ek. destruct (c_cw c) as [w|] eqn:Ec; auto. destruct (F1 w eq_refl) as [A B].
+      rewrite Ek in B. unfold in_use in Hnu. rewrite A, Ec in Hnu. destruct (c_st c); discriminate. }
+    assert (Hdw : c_dw c = None).
+    { destruct (c_dw c) as [w|] eqn:Ec; auto. destruct (F2 w eq_refl) as [A B].
+      unfold in_use in Hnu. rewrite A in Hnu. destruct (c_kind c), (c_st c); discriminate. }
+    assert (Hdr : c_drained c = true).
+    { destruct (c_drained c) eqn:Ed; auto. destruct (F3 eq_refl) as (K & A & B).
+      unfold in_use in Hnu. rewrite A, B in Hnu. discriminate. }
+    assert (Hlo : le_open_st (c_st c) = false).
+    { destruct (le_open_st (c_st c)) eqn:E; auto. assert (c_live c = true) by (eapply live_of_open; eauto).
+      rewrite (in_use_le_open m u c) in Hnu; auto. }
+    assert (Hca : cl_abortable_st (c_st c) = false).
+    { destruct (cl_abortable_st (c_st c)) eqn:E; auto. assert (A : c_live c = true) by (eapply live_of_open; eauto).
+      unfold in_use in Hnu. rewrite A in Hnu. destruct (c_st c); discriminate. }
+    destruct (c_kind c) eqn:Ek; cbn; rewrite ?Ek; repeat split; auto.
+Qed.
+
+Lemma down_chan_other m h u c : Inv m -> hget m u = Some c -> c_conn c <> h ->
+  down_chan h (down_us m h) u c = c.
+Proof.
+  intros I Hu Hc. unfold down_chan.
+  destruct (Z.eqb_spec (c_conn c) h); [congruence|].
+  assert (Em : memz u (down_us m h) = false).
+  { apply memz_false. intros Hi. apply (down_us_spec m h u I) in Hi. destruct Hi as [c0 (A & B & _)]. congruence. }
+  rewrite Em. destruct (c_kind c); reflexivity.
+Qed.
+
+Lemma inv_down m h : Inv m -> Inv (do_down m h).
+Proof.
+  intros I.
+  set (chg := fun u => match hget m u with
+                       | Some c => if Z.eqb (c_conn c) h then Some (down_chan h (down_us m h) u c) else None
+                       | None => None end).
+  assert (Hchg_some : forall u c', chg u = Some c' ->
+            exists c, hget m u = Some c /\ c_conn c = h /\ c' = down_chan h (down_us m h) u c).
+  { intros u c'. unfold chg. destruct (hget m u) as [c|]; [|discriminate].
+    destruct (Z.eqb_spec (c_conn c) h); [|discriminate]. intros [= <-]. eauto. }
+  assert (Hchg_none : forall u c, chg u = None -> hget m u = Some c -> c_conn c <> h).
+  { intros u c. unfold chg. intros H Hu. rewrite Hu in H. destruct (Z.eqb_spec (c_conn c) h); [discriminate|auto]. }
+  assert (Hmw : forall w x, wget m w = Some x ->
+            wget (do_down m h) w = Some x \/
+            (w_out x = O_PENDING /\ exists o, o <> O_PENDING /\ wget (do_down m h) w = Some (wres1 o x) /\
+              (In w (down_cancels m h (down_us m h)) \/ In w (down_results m (down_us m h))))).
+  { intros w x Hx. rewrite wget_down, Hx. cbn. 
+    destruct (Z.eq_dec (w_out x) O_PENDING) as [Hp|Hp].
+    - destruct (memz w (down_cancels m h (down_us m h))) eqn:E1.
+      + right. split; auto. exists O_CANCELLED. repeat split; try discriminate; auto. left. now apply memz_In.
+      + destruct (memz w (down_results m (down_us m h))) eqn:E2; [|auto].
+        right. split; auto. exists O_RESULT. repeat split; try discriminate; auto. right. now apply memz_In.
+    - left. rewrite !wres1_notpending by auto. repeat destruct (memz _ _); auto. }
+  assert (Hkeepw : forall w x, wget m w = Some x ->
+            ~ In w (down_cancels m h (down_us m h)) -> ~ In w (down_results m (down_us m h)) -> wget (do_down m h) w = Some x).
+  { intros w x Hx N1 N2. rewrite wget_down, Hx. cbn. 
+    apply memz_false in N1, N2. now rewrite N1, N2. }
+  (* waiters of channels of other connections and of other connections' requests are not touched *)
+  assert (Hnotouch : forall w x, wget m w = Some x -> w_conn x <> h ->
+            ~ In w (down_cancels m h (down_us m h)) /\ ~ In w (down_results m (down_us m h))).
+  { intros w x Hx Hn. split.
+    - rewrite down_cancels_spec. intros [[u [c (Hu & Hc & Hk)]]|[id [us' Hi]]].
+      + destruct (ch_cw m I u c w Hu Hc) as (_ & _ & [x0 (A & _ & _ & B & _)]).
+        rewrite Hx in A. inversion A; subst x0.
+        assert (c_conn c = h); [|congruence].
+        destruct (c_kind c); auto. apply (down_us_spec m h u I) in Hk. destruct Hk as [c0 (A0 & B0 & _)]. congruence.
+      + apply (In_tget _ _ _ _ (nd_pend m I)) in Hi. destruct (pend_ok m I _ _ _ _ Hi) as [[x0 (A & _ & _ & B & _)] _].
+        congruence.
+    - rewrite down_results_spec. intros [u [c (Hu & Hc & Hk)]].
+      destruct (ch_dw m I u c w Hu Hc) as (_ & _ & [x0 (A & _ & _ & B & _)]).
+      rewrite Hx in A. inversion A; subst x0.
+      apply (down_us_spec m h u I) in Hk. destruct Hk as [c0 (A0 & B0 & _)]. congruence. }
+  apply (inv_frame m (do_down m h) chg I).
+  - (* heap *) intros u. rewrite hget_down.  unfold chg. destruct (hget m u) as [c|] eqn:Hu; cbn; auto.
+    destruct (Z.eqb_spec (c_conn c) h); auto. f_equal. now apply down_chan_other.
+  - (* facts *) intros u c' E. destruct (Hchg_some u c' E) as [c (Hu & Hc & ->)].
+    destruct (down_chan_facts m h u c I Hu Hc) as (A1 & A2 & A3 & A4 & A5 & A6 & A7 & A8 & A9). 
+    unfold chan_facts. rewrite A5, A6, A7, A8, A9.
+    split; [discriminate|split; [discriminate|split; [discriminate|split; [auto|]]]].
+    unfold kind_st. rewrite A8, A9. now destruct (c_kind _).
+  - (* CH1 *) apply NoDup_tdrop, (nd_chs m I).
+  - (* CH2 *) intros h' k u E. cbn [do_down m_chs]. rewrite tget_tdrop. destruct (Z.eqb_spec h' h); [|tauto].
+    subst. split; [discriminate|]. intros H. exfalso. destruct (chs_pt m I _ _ _ H) as [c (A & B & _)].
+    now apply (Hchg_none u c E A).
+  - (* CH3 *) intros h' k u c' E. cbn [do_down m_chs]. rewrite tget_tdrop. destruct (Z.eqb_spec h' h); [discriminate|].
+    intros H. exfalso. destruct (Hchg_some u c' E) as [c (Hu & Hc & _)].
+    destruct (chs_self m u c h' k I Hu H). congruence.
+  - (* CH4 *) intros u c' E. destruct (Hchg_some u c' E) as [c (Hu & Hc & ->)].
+    destruct (down_chan_facts m h u c I Hu Hc) as (A1 & A2 & A3 & A4 & _). 
+    cbn [do_down m_chs]. rewrite tget_tdrop, A2, Hc, Z.eqb_refl. unfold in_use. rewrite A4. cbn. split; discriminate.
+  - (* LE1 *) apply NoDup_tdrop, (nd_le m I).
+  - (* LE2 *) intros h' k u E. cbn [do_down m_le]. rewrite tget_tdrop. destruct (Z.eqb_spec h' h); [|tauto].
+    subst. split; [discriminate|]. intros H. exfalso. destruct (le_pt m I _ _ _ H) as [c (A & B & _)].
+    now apply (Hchg_none u c E A).
+  - (* LE3 *) intros h' k u c' E. cbn [do_down m_le]. rewrite tget_tdrop. destruct (Z.eqb_spec h' h); [discriminate|].
+    intros H. exfalso. destruct (Hchg_some u c' E) as [c (Hu & Hc & _)].
+    destruct (le_self m u c h' k I Hu H) as (A & _). congruence.
+  - (* LE4 *) intros u c' E _ Hl. destruct (Hchg_some u c' E) as [c (Hu & Hc & ->)].
+    destruct (down_chan_facts m h u c I Hu Hc) as (A1 & A2 & A3 & A4 & _).  congruence.
+  - (* PE1 *) apply NoDup_tdrop, (nd_pend m I).
+  - (* PE2 *) intros h' id w us' H. cbn [do_down m_pend] in H. rewrite tget_tdrop in H.
+    destruct (Z.eqb_spec h' h); [discriminate|]. left. split; auto.
+    destruct (pend_ok m I _ _ _ _ H) as [[x (A & _ & _ & B & _)] _].
+    rewrite A. destruct (Hnotouch w x A) as [N1 N2]; [congruence|]. now apply Hkeepw.
+  - (* PE3 *) intros h' id w us' u c' H Hin E. cbn [do_down m_pend] in H. rewrite tget_tdrop in H.
+    destruct (Z.eqb_spec h' h); [discriminate|]. exfalso.
+    destruct (Hchg_some u c' E) as [c (Hu & Hc & _)].
+    destruct (pend_ok m I _ _ _ _ H) as (_ & _ & B). destruct (B u Hin) as [c0 (A0 & _ & B0 & _)]. congruence.
+  - (* PE4 *) intros u c E Hu. pose proof (Hchg_none u c E Hu) as Hn.
+    unfold in_use. cbn [do_down m_pend]. rewrite tget_tdrop. destruct (Z.eqb_spec (c_conn c) h); [congruence|reflexivity].
+  - (* RQ1 *) apply NoDup_tdrop, (nd_reqs m I).
+  - (* RQ2 *) intros h' id k H. cbn [do_down m_reqs] in H. rewrite tget_tdrop in H.
+    destruct (Z.eqb_spec h' h); [discriminate|].
+    destruct (reqs_ok m I _ _ _ H) as [u0 [c0 (R1 & R2 & R3 & R4 & R5)]]. exists u0, c0.
+    destruct (chs_self m u0 c0 h' k I R2 R1) as [Hc0 _].
+    cbn [do_down m_chs]. rewrite tget_tdrop. destruct (Z.eqb_spec h' h); [congruence|].
+    rewrite hget_down, R2. cbn.  rewrite (down_chan_other m h u0 c0 I R2) by congruence. auto.
+  - (* W1 *) intros w x Hx. destruct (Hmw w x Hx) as [H|(Hp & o & Ho & H & _)]; auto.
+    right. exists (wres1 o x). split; auto. rewrite wres1_out; auto.
+  - (* W2 *) intros u c w E Hu Hw. pose proof (Hchg_none u c E Hu) as Hn.
+    assert (Hx : exists x, wget m w = Some x /\ w_conn x = c_conn c).
+    { destruct Hw as [Hw|Hw].
+      - destruct (ch_cw m I u c w Hu Hw) as (_ & _ & [x (A & _ & _ & B & _)]). eauto.
+      - destruct (ch_dw m I u c w Hu Hw) as (_ & _ & [x (A & _ & _ & B & _)]). eauto. }
+    destruct Hx as [x [Hx Hcx]]. rewrite Hx. destruct (Hnotouch w x Hx) as [N1 N2]; [congruence|]. now apply Hkeepw.
+  - (* W4 *) intros w x' Hn Hx. rewrite wget_down, Hn in Hx. discriminate.
+  - (* W5c *) intros u c c' w x' E Hu Hc Hx Hp. exfalso.
+    destruct (Hchg_some u c' E) as [c0 (Hu0 & Hconn & _)]. rewrite Hu in Hu0. inversion Hu0; subst c0.
+    destruct (ch_cw m I u c w Hu Hc) as (Al & Ast & [x (A & B & _)]).
+    assert (Hin : In w (down_cancels m h (down_us m h))).
+    { apply down_cancels_spec. left. exists u, c. repeat split; auto.
+      destruct (c_kind c) eqn:Ek; auto. apply (down_us_spec m h u I). exists c. repeat split; auto.
+      unfold in_use. rewrite Al, Hc. destruct (c_st c); try discriminate; auto. }
+    rewrite wget_down, A in Hx. cbn in Hx.  apply memz_In in Hin. rewrite Hin in Hx.
+    inversion Hx; subst x'. rewrite wres1_out in Hp by auto. discriminate.
+  - (* W5d *) intros u c c' w x' E Hu Hc Hx Hp. exfalso.
+    destruct (Hchg_some u c' E) as [c0 (Hu0 & Hconn & _)]. rewrite Hu in Hu0. inversion Hu0; subst c0.
+    destruct (ch_dw m I u c w Hu Hc) as (Al & Ast & [x (A & B & _)]).
+    assert (Hin : In w (down_results m (down_us m h))).
+    { apply down_results_spec. exists u, c. repeat split; auto.
+      apply (down_us_spec m h u I). exists c. repeat split; auto.
+      unfold in_use. rewrite Al. destruct (c_kind c), (c_st c); try discriminate; auto. }
+    rewrite wget_down, A in Hx. cbn in Hx.  apply memz_In in Hin. rewrite Hin in Hx.
+    destruct (memz w (down_cancels m h (down_us m h))); inversion Hx; subst x'; rewrite wres1_out in Hp by auto; discriminate.
+  - (* W5p *) intros h' id w us' x' H Hx Hp. cbn [do_down m_pend]. rewrite tget_tdrop.
+    destruct (Z.eqb_spec h' h); [|eauto]. exfalso. subst h'.
+    destruct (pend_ok m I _ _ _ _ H) as [[x (A & B & _)] _].
+    assert (Hin : In w (down_cancels m h (down_us m h))).
+    { apply down_cancels_spec. right. exists id, us'. now apply tget_In. }
+    rewrite wget_down, A in Hx. cbn in Hx.  apply memz_In in Hin. rewrite Hin in Hx.
+    inversion Hx; subst x'. rewrite wres1_out in Hp by auto. discriminate.
+  - (* W6c *) intros u c' w E Hc. destruct (Hchg_some u c' E) as [c (Hu & Hconn & ->)].
+    destruct (down_chan_facts m h u c I Hu Hconn) as (_ & _ & _ & _ & A5 & _).  congruence.
+  - (* W6d *) intros u c' w E Hc. destruct (Hchg_some u c' E) as [c (Hu & Hconn & ->)].
+    destruct (down_chan_facts m h u c I Hu Hconn) as (_ & _ & _ & _ & _ & A6 & _).  congruence.
+Qed.
+(* ================================================================== enhanced credit-based: client side *)
+Definition chg0 : Z -> option chan := fun _ => None.
+
+(* S1: the future of a new enhanced request, with no channel yet *)
+Lemma inv_pend_new m h i :
+  Inv m -> tget h i (m_pend m) = None ->
+  let m1 := wnew (next_id m h) O_PENDING WOpenEnh h i in
+  Inv (with_pend m1 (tset h i (wuid m, []) (m_pend m1))).
+Proof.
+  intros I Hn m1. subst m1.
+  apply (inv_frame m _ chg0 I);
+    try (unfold chg0; intros; match goal with H : None = Some _ |- _ => discriminate H end).
+  - (* heap *) intros u. reflexivity.
+  - (* CH1 *) apply (nd_chs m I).
+  - (* CH2 *) intros; tauto.
+  - (* LE1 *) apply (nd_le m I).
+  - (* LE2 *) intros; tauto.
+  - apply NoDup_tset, (nd_pend m I).
+  - intros h' id w us H. cbn [m_pend with_pend] in H. rewrite tget_tset in H.
+    destruct (Z.eqb_spec h' h), (Z.eqb_spec id i); subst; cbn in H; rewrite ?tget_tdel in H;
+      repeat match type of H with (if ?b then _ else _) = _ => let E := fresh in destruct b eqn:E; [discriminate|] end.
+    + inversion H; subst. right. split; [|split; [constructor|intros u []]].
+      exists (mkW O_PENDING WOpenEnh h i). autorewrite with acc. rewrite Z.eqb_refl. repeat split; auto.
+    + left. split; auto. destruct (pend_ok m I _ _ _ _ H) as [[x (A & _)] _]. autorewrite with acc.
+      now rewrite (wget_old m w x A).
+    + left. split; auto. destruct (pend_ok m I _ _ _ _ H) as [[x (A & _)] _]. autorewrite with acc.
+      now rewrite (wget_old m w x A).
+    + left. split; auto. destruct (pend_ok m I _ _ _ _ H) as [[x (A & _)] _]. autorewrite with acc.
+      now rewrite (wget_old m w x A).
+  - intros u c _ Hu. unfold in_use. autorewrite with acc.
+    destruct (Z.eqb_spec (c_conn c) h), (Z.eqb_spec (c_ref c) i); cbn; auto.
+    rewrite e, e0, Hn. destruct (c_st c); reflexivity.
+  - apply (nd_reqs m I).
+  - intros h' id k H. destruct (reqs_ok m I _ _ _ H) as [u0 [c0 R]]. exists u0, c0. now autorewrite with acc.
+  - intros w x Hx. left. autorewrite with acc. now rewrite (wget_old m w x Hx).
+  - intros u c w _ Hu Hw. autorewrite with acc.
+    assert (exists x, wget m w = Some x) as [x Hx].
+    { destruct Hw as [Hw|Hw]; [destruct (ch_cw m I u c w Hu Hw) as (_ & _ & [x (A & _)])
+                              |destruct (ch_dw m I u c w Hu Hw) as (_ & _ & [x (A & _)])]; eauto. }
+    now rewrite (wget_old m w x Hx).
+  - intros w x' Hnone Hx Hp. autorewrite with acc in Hx.
+    destruct (Z.eqb_spec w (wuid m)); [|congruence]. inversion Hx; subst. unfold owner_ok. cbn.
+    exists []. autorewrite with acc. now rewrite !Z.eqb_refl.
+  - intros h' id w us x' H _ _. autorewrite with acc.
+    destruct (Z.eqb_spec h' h), (Z.eqb_spec id i); subst; cbn; eauto. congruence.
+Qed.
+
+Lemma NoDup_snoc {A} (l : list A) x : NoDup l -> ~ In x l -> NoDup (l ++ [x]).
+Proof.
+  induction l as [|y l IH]; cbn; intros N Hn; [constructor; [intros []|constructor]|].
+  inversion N; subst. constructor.
+  - rewrite in_app_iff. cbn. intuition.
+  - apply IH; auto.
+Qed.
+
+Ltac chg1_tac :=
+  repeat match goal with
+         | H : chg1 _ _ ?u0 = Some ?c0 |- _ =>
+             apply chg1_some in H; let A := fresh in let B := fresh in destruct H as [A B]; subst u0; subst c0
+         | H : chg1 _ _ _ = None |- _ => apply chg1_none in H
+         end.
+
+(* S2: one more channel of the pending request *)
+Lemma inv_add_init m h i scid w us :
+  Inv m -> tget h i (m_pend m) = Some (w, us) -> tget h scid (m_chs m) = None ->
+  let c0 := mkChan KLe h scid 0 SInit 0 0 0 true None None i true in
+  let m1 := hnew m c0 in
+  let m2 := with_chs m1 (tset h scid (huid m) (m_chs m1)) in
+  Inv (pend_add m2 h i (huid m)).
+Proof.
+  intros I Hp Hfresh c0 m1 m2. set (u := huid m).
+  assert (Hnone : hget m u = None) by apply hget_huid.
+  assert (Hnochs : forall h1 k1, tget h1 k1 (m_chs m) = Some u -> False).
+  { intros h1 k1 H. destruct (chs_pt m I _ _ _ H) as [c1 (A & _)]. congruence. }
+  assert (Hnole : forall h1 k1, tget h1 k1 (m_le m) = Some u -> False).
+  { intros h1 k1 H. destruct (le_pt m I _ _ _ H) as [c1 (A & _)]. congruence. }
+  destruct (pend_ok m I _ _ _ _ Hp) as (Wi & Nd & Mem).
+  assert (Hnotin : ~ In u us).
+  { intros Hi. destruct (Mem u Hi) as [c1 (A & _)]. congruence. }
+  unfold pend_add. subst m2 m1. cbn [m_pend with_chs hnew with_heap]. rewrite Hp.
+  apply (inv_frame m _ (chg1 u c0) I).
+  - (* heap *) intros u'. unfold chg1. autorewrite with acc. fold u. destruct (Z.eqb u' u); reflexivity.
+  - (* facts *) intros u0 c' E. chg1_tac. unfold chan_facts; cbn.
+    split; [discriminate|split; [discriminate|split; [discriminate|split; [discriminate|reflexivity]]]].
+  - (* CH1 *) autorewrite with acc. apply NoDup_tset, (nd_chs m I).
+  - (* CH2 *) intros h' k u0 E. chg1_tac. cbn [m_chs with_pend with_chs hnew with_heap]. apply (rel_tset _ _ _ u); auto.
+  - (* CH3 *) intros h' k u0 c' E H. chg1_tac. autorewrite with acc in H. cbn.
+    destruct (Z.eqb_spec h' h), (Z.eqb_spec k scid); subst; cbn in H; auto;
+      try match type of H with (if ?b then _ else _) = _ => destruct b; [discriminate|] end; exfalso; eauto.
+  - (* CH4 *) intros u0 c' E. chg1_tac. cbn [c_conn c_scid c0]. autorewrite with acc. rewrite !Z.eqb_refl. cbn.
+    unfold in_use. cbn [c_live c_st c_conn c_ref c0]. autorewrite with acc. rewrite !Z.eqb_refl. cbn.
+    assert (memz u (us ++ [u]) = true) by (apply memz_In, in_or_app; right; now left). rewrite H. tauto.
+  - (* LE1 *) autorewrite with acc. apply (nd_le m I).
+  - (* LE2 *) intros h' k u0 E. autorewrite with acc. tauto.
+  - (* LE3 *) intros h' k u0 c' E H. chg1_tac. autorewrite with acc in H. exfalso; eauto.
+  - (* LE4 *) intros u0 c' E _ _ H. chg1_tac. discriminate.
+  - (* PE1 *) autorewrite with acc. apply NoDup_tset, (nd_pend m I).
+  - (* PE2 *) intros h' id w' us' H. autorewrite with acc in H.
+    destruct (Z.eqb_spec h' h), (Z.eqb_spec id i); subst; cbn in H;
+      repeat match type of H with (if ?b then _ else _) = _ => let E := fresh in destruct b eqn:E; [discriminate|] end.
+    + inversion H; subst. right. split; [|split].
+      * destruct Wi as [x Hx]. exists x. now autorewrite with acc.
+      * apply NoDup_snoc; auto.
+      * intros u0 Hin E. chg1_tac. apply in_app_or in Hin. destruct Hin as [Hin|[<-|[]]]; [|congruence].
+        destruct (Mem u0 Hin) as [c1 Hc1]. exists c1. unfold member_ok. tauto.
+    + left. split; auto.
+    + left. split; auto.
+    + left. split; auto.
+  - (* PE3 *) intros h' id w' us' u0 c' H Hin E. chg1_tac. autorewrite with acc in H.
+    destruct (Z.eqb_spec h' h), (Z.eqb_spec id i); subst; cbn in H;
+      repeat match type of H with (if ?b then _ else _) = _ => let E := fresh in destruct b eqn:E; [discriminate|] end.
+    + unfold member_ok. cbn. tauto.
+    + exfalso. destruct (pend_ok m I _ _ _ _ H) as (_ & _ & B). destruct (B u Hin) as [c1 (A & _)]. congruence.
+    + exfalso. destruct (pend_ok m I _ _ _ _ H) as (_ & _ & B). destruct (B u Hin) as [c1 (A & _)]. congruence.
+    + exfalso. destruct (pend_ok m I _ _ _ _ H) as (_ & _ & B). destruct (B u Hin) as [c1 (A & _)]. congruence.
+  - (* PE4 *) intros u0 c E Hu. chg1_tac. unfold in_use. autorewrite with acc.
+    destruct (Z.eqb_spec (c_conn c) h), (Z.eqb_spec (c_ref c) i); cbn; auto.
+    rewrite e, e0, Hp. destruct (c_st c); auto. f_equal.
+    assert (memz u0 (us ++ [u]) = memz u0 us); [|auto].
+    apply bool_iff. rewrite !memz_In, in_app_iff. cbn. intuition congruence.
+  - (* RQ1 *) autorewrite with acc. apply (nd_reqs m I).
+  - (* RQ2 *) intros h' id k H. autorewrite with acc in H.
+    destruct (reqs_ok m I _ _ _ H) as [u1 [c1 (R1 & R2 & R3)]]. exists u1, c1.
+    assert (u1 <> u) by (intros ->; congruence).
+    rewrite hget_with_pend, hget_with_chs, hget_hnew. fold u.
+    destruct (Z.eqb_spec u1 u); [congruence|]. repeat split; try tauto.
+    cbn [m_chs with_pend with_chs hnew with_heap]. apply (rel_tset _ _ _ u); auto.
+  - (* W1 *) intros w0 x Hx. left. now autorewrite with acc.
+  - (* W2 *) intros u0 c w0 _ _ _. now autorewrite with acc.
+  - (* W4 *) intros w0 x' Hn Hx. autorewrite with acc in Hx. congruence.
+  - (* W5c *) intros u0 c c' w0 x' E Hu. chg1_tac. congruence.
+  - (* W5d *) intros u0 c c' w0 x' E Hu. chg1_tac. congruence.
+  - (* W5p *) intros h' id w0 us0 x' H _ _. autorewrite with acc.
+    destruct (Z.eqb_spec h' h), (Z.eqb_spec id i); subst; cbn; eauto.
+    rewrite Hp in H. inversion H; subst. eauto.
+  - (* W6c *) intros u0 c' w0 E. chg1_tac. discriminate.
+  - (* W6d *) intros u0 c' w0 E. chg1_tac. discriminate.
+Qed.
+
+Lemma inv_new_enh_chans h i scids : forall m w us,
+  Inv m -> tget h i (m_pend m) = Some (w, us) -> NoDup scids ->
+  (forall s, In s scids -> tget h s (m_chs m) = None) ->
+  Inv (new_enh_chans m h i scids).
+Proof.
+  induction scids as [|s rest IH]; intros m w us I Hp Nd Hf; cbn [new_enh_chans]; auto.
+  inversion Nd as [|? ? Hn Nd']; subst.
+  pose proof (inv_add_init m h i s w us I Hp (Hf s (or_introl eq_refl))) as I2. cbn zeta in I2.
+  eapply IH; eauto.
+  - unfold pend_add. cbn [m_pend with_chs hnew with_heap]. rewrite Hp. cbn [m_pend with_pend].
+    rewrite tget_tset, !Z.eqb_refl. reflexivity.
+  - intros s' Hs'. unfold pend_add. cbn [m_pend with_chs hnew with_heap]. rewrite Hp. cbn [m_chs with_pend with_chs].
+    rewrite tget_tset, tget_tdel. assert (s' <> s) by (intros ->; auto).
+    destruct (Z.eqb_spec s' s); [congruence|]. rewrite andb_false_r. apply Hf. now right.
+Qed.
+
+Lemma inv_open_enh m h psm n credits :
+  Inv m -> ev_ok m (EOpen h K_ENH psm n 0 credits) = true -> Inv (fst (open_enh m h psm n credits)).
+Proof.
+  intros I Hok. cbn in Hok. unfold open_enh.
+  destruct (find_free_le_n (tkeys h (m_chs m)) (Z.to_nat n)) as [|s0 rest] eqn:Ef; cbn [fst].
+  { apply inv_wnew_done; auto. discriminate. }
+  destruct (tget h (nid m h) (m_pend m)) eqn:Ep; [discriminate|].
+  pose proof (inv_pend_new m h (nid m h) I Ep) as I1. cbn zeta in I1.
+  eapply inv_new_enh_chans; eauto.
+  - cbn [m_pend with_pend]. rewrite tget_tset, !Z.eqb_refl. reflexivity.
+  - rewrite <- Ef. unfold find_free_le_n. destruct (Z.to_nat n); [constructor|apply find_free_n_NoDup].
+  - intros s Hs. cbn [m_chs with_pend wnew with_w next_id with_ids]. rewrite <- Ef in Hs. unfold find_free_le_n in Hs.
+    destruct (Z.to_nat n); [destruct Hs|]. eapply free_fresh; eauto.
+Qed.
+
+(* S3/S4: the response reaches one channel of the request *)
+Lemma member_facts m h i w us u : Inv m -> tget h i (m_pend m) = Some (w, us) -> In u us ->
+  exists c, hget m u = Some c /\ member_ok c h i /\ in_use m u c = true /\
+            tget h (c_scid c) (m_chs m) = Some u.
+Proof.
+  intros I Hp Hin. destruct (pend_ok m I _ _ _ _ Hp) as (_ & _ & B). destruct (B u Hin) as [c (A & M)].
+  assert (Hiu : in_use m u c = true).
+  { destruct M as (_ & M2 & M3 & M4 & M5 & _). unfold in_use. rewrite M5, M3, M2, M4, Hp. cbn. now apply memz_In. }
+  exists c. repeat split; try tauto. destruct M as (_ & <- & _). now apply (ch_reg m I u c A).
+Qed.
+
+Lemma inv_enh_step m h i w u us' (ok : bool) d credits (hasd : bool) :
+  Inv m -> tget h i (m_pend m) = Some (w, u :: us') ->
+  (ok = true -> hasd = true /\ tget h d (m_le m) = None) ->
+  let m1 := pend_set m h i us' in
+  let f := fun c => if ok then set_st (set_out (set_dcid c d) credits (c_pending c) (c_drained c)) SConnected
+                    else set_st c SConnError in
+  let m2 := if hasd then hupd m1 u f else m1 in
+  let m3 := if ok then le_register m2 [u] else chs_unregister m2 [u] in
+  Inv m3 /\ m_pend m3 = tset h i (w, us') (m_pend m) /\
+  m_le m3 = (if ok then tset h d u (m_le m) else m_le m).
+Proof.
+  intros I Hp Hok m1 f m2 m3.
+  destruct (member_facts m h i w (u :: us') u I Hp (or_introl eq_refl)) as [c (Hu & M & Hin & Hreg)].
+  destruct M as (Mk & Mc & Ms & Mr & Ml & Mcw & Mdw).
+  destruct (pend_ok m I _ _ _ _ Hp) as (Wi & Nd & Mem). apply NoDup_cons_iff in Nd. destruct Nd as [Hnotin Nd'].
+  pose proof (inv_chan_facts m u c I Hu) as (F1 & F2 & F3 & F4 & F5).
+  set (c' := if hasd then f c else c).
+  assert (Ec' : c_kind c' = KLe /\ c_conn c' = c_conn c /\ c_scid c' = c_scid c /\ c_live c' = true /\
+                c_cw c' = None /\ c_dw c' = None /\ c_ref c' = c_ref c).
+  { subst c' f. destruct hasd, ok; cbn; repeat split; auto. }
+  destruct Ec' as (E1 & E2 & E3 & E4 & E5 & E6 & E7).
+  assert (Hm2 : forall u', hget m2 u' = if Z.eqb u' u then Some c' else hget m u').
+  { intros u'. subst m2 m1 c'. unfold pend_set. rewrite Hp. destruct hasd; autorewrite with acc;
+      destruct (Z.eqb_spec u' u); subst; rewrite ?Hu; reflexivity. }
+  assert (Hm3heap : forall u', hget m3 u' = if Z.eqb u' u then Some c' else hget m u').
+  { intros u'. subst m3. destruct ok; cbn [le_register chs_unregister]; rewrite (Hm2 u), Z.eqb_refl;
+      autorewrite with acc; apply Hm2. }
+  assert (Hpend3 : m_pend m3 = tset h i (w, us') (m_pend m)).
+  { subst m3. destruct ok; cbn [le_register chs_unregister]; rewrite (Hm2 u), Z.eqb_refl; autorewrite with acc;
+      subst m2 m1; unfold pend_set; rewrite Hp; destruct hasd; autorewrite with acc; reflexivity. }
+  assert (Hchs3 : m_chs m3 = if ok then m_chs m else tdel (c_conn c) (c_scid c) (m_chs m)).
+  { subst m3. destruct ok; cbn [le_register chs_unregister]; rewrite (Hm2 u), Z.eqb_refl; autorewrite with acc;
+      rewrite ?E2, ?E3; subst m2 m1; unfold pend_set; rewrite Hp; destruct hasd; autorewrite with acc; reflexivity. }
+  assert (Hle3 : m_le m3 = if ok then tset (c_conn c) (c_dcid c') u (m_le m) else m_le m).
+  { subst m3. destruct ok; cbn [le_register chs_unregister]; rewrite (Hm2 u), Z.eqb_refl; autorewrite with acc;
+      rewrite ?E2; subst m2 m1; unfold pend_set; rewrite Hp; destruct hasd; autorewrite with acc; reflexivity. }
+  assert (Hreqs3 : m_reqs m3 = m_reqs m).
+  { subst m3. destruct ok; cbn [le_register chs_unregister]; rewrite (Hm2 u), Z.eqb_refl; autorewrite with acc;
+      subst m2 m1; unfold pend_set; rewrite Hp; destruct hasd; autorewrite with acc; reflexivity. }
+  assert (Hw3 : forall w0, wget m3 w0 = wget m w0).
+  { intros w0. subst m3. destruct ok; cbn [le_register chs_unregister]; rewrite (Hm2 u), Z.eqb_refl; autorewrite with acc;
+      subst m2 m1; unfold pend_set; rewrite Hp; destruct hasd; autorewrite with acc; reflexivity. }
+  clearbody m3. clear m2 m1 Hm2.
+  assert (Hst' : if ok then c_st c' = SConnected /\ c_dcid c' = d /\ c_drained c' = c_drained c
+                 else (c_st c' = SConnError \/ c_st c' = SInit) /\ c_drained c' = c_drained c).
+  { subst c' f. destruct ok.
+    - destruct (Hok eq_refl) as [-> _]. cbn. auto.
+    - destruct hasd; cbn; auto. }
+  clearbody c'.
+  assert (Hdr : c_drained c = true).
+  { destruct (c_drained c) eqn:Ed; auto. destruct (F3 eq_refl) as (_ & _ & B). congruence. }
+  assert (Hnole : forall h1 k1, tget h1 k1 (m_le m) = Some u -> False).
+  { intros h1 k1 H. destruct (le_self m u c h1 k1 I Hu H) as (_ & _ & R). unfold le_reg in R.
+    rewrite Mk, Ms in R. cbn in R. rewrite andb_false_r in R. discriminate. }
+  split; [|split; [exact Hpend3|]].
+  2:{ rewrite Hle3. destruct ok; auto. destruct Hst' as (_ & -> & _). now rewrite Mc. }
+  apply (inv_frame m m3 (chg1 u c') I).
+  - (* heap *) intros u'. rewrite Hm3heap. unfold chg1. destruct (Z.eqb u' u); reflexivity.
+  - (* facts *) intros u0 c0 E. chg1_tac. unfold chan_facts. rewrite E5, E6, E4, E1.
+    split; [discriminate|split; [discriminate|split; [|split; [discriminate|]]]].
+    + destruct ok; [destruct Hst' as (A & _ & B)|destruct Hst' as (_ & B)]; rewrite B, Hdr; discriminate.
+    + destruct ok; [destruct Hst' as (A & _)|destruct Hst' as ([A|A] & _)]; rewrite A; reflexivity.
+  - (* CH1 *) rewrite Hchs3. destruct ok; [|apply NoDup_tdel]; apply (nd_chs m I).
+  - (* CH2 *) intros h' k u0 E. chg1_tac. rewrite Hchs3. destruct ok; [tauto|].
+    apply (rel_tdel _ _ _ u); auto. now rewrite Mc.
+  - (* CH3 *) intros h' k u0 c0 E H. chg1_tac. rewrite Hchs3 in H. rewrite E2, E3. destruct ok.
+    + eapply chs_self; eauto.
+    + rewrite tget_tdel in H. destruct (Z.eqb h' (c_conn c) && Z.eqb k (c_scid c)); [discriminate|].
+      eapply chs_self; eauto.
+  - (* CH4 *) intros u0 c0 E. chg1_tac. rewrite Hchs3, E2, E3. unfold in_use. rewrite E4. destruct ok.
+    + destruct Hst' as (A & _). rewrite A, Mc. cbn. tauto.
+    + rewrite tget_tdel, !Z.eqb_refl. cbn. destruct Hst' as ([A|A] & _); rewrite A; cbn; [split; discriminate|].
+      rewrite Hpend3, E2, E7, Mc, Mr, tget_tset, !Z.eqb_refl. cbn.
+      apply memz_false in Hnotin. rewrite Hnotin. split; discriminate.
+  - (* LE1 *) rewrite Hle3. destruct ok; [apply NoDup_tset|]; apply (nd_le m I).
+  - (* LE2 *) intros h' k u0 E. chg1_tac. rewrite Hle3. destruct ok; [|tauto].
+    apply (rel_tset _ _ _ u); auto. destruct Hst' as (_ & -> & _). destruct (Hok eq_refl) as [_ B]. rewrite Mc. auto.
+  - (* LE3 *) intros h' k u0 c0 E H. chg1_tac. rewrite Hle3 in H. destruct ok; [|exfalso; eauto].
+    destruct Hst' as (A & B & _). rewrite tget_tset in H.
+    destruct (Z.eqb_spec h' (c_conn c)), (Z.eqb_spec k (c_dcid c')); subst; cbn in H.
+    + rewrite A. repeat split; auto.
+    + rewrite tget_tdel in H. match type of H with (if ?b then _ else _) = _ => destruct b; [discriminate|] end. exfalso; eauto.
+    + rewrite tget_tdel in H. match type of H with (if ?b then _ else _) = _ => destruct b; [discriminate|] end. exfalso; eauto.
+    + rewrite tget_tdel in H. match type of H with (if ?b then _ else _) = _ => destruct b; [discriminate|] end. exfalso; eauto.
+  - (* LE4 *) intros u0 c0 E _ _ Ho. chg1_tac. rewrite Hle3. destruct ok.
+    + rewrite E2, tget_tset, !Z.eqb_refl. reflexivity.
+    + destruct Hst' as ([A|A] & _); rewrite A in Ho; discriminate.
+  - (* PE1 *) rewrite Hpend3. apply NoDup_tset, (nd_pend m I).
+  - (* PE2 *) intros h' id w' us0 H. rewrite Hpend3 in H. rewrite tget_tset in H. rewrite Hw3.
+    destruct (Z.eqb_spec h' h), (Z.eqb_spec id i); subst; cbn in H;
+      rewrite ?tget_tdel in H;
+      repeat match type of H with (if ?b then _ else _) = _ => let E := fresh in destruct b eqn:E; [discriminate|] end;
+      try (left; split; auto; fail).
+    inversion H; subst. right. split; [|split; [exact Nd'|]].
+    + destruct Wi as [x Hx]. exists x. now rewrite Hw3.
+    + intros u0 Hi _. destruct (Mem u0 (or_intror Hi)) as [c1 Hc1]. exists c1. unfold member_ok. tauto.
+  - (* PE3 *) intros h' id w' us0 u0 c0 H Hi E. chg1_tac. exfalso. rewrite Hpend3, tget_tset in H.
+    destruct (Z.eqb_spec h' h), (Z.eqb_spec id i); subst; cbn in H;
+      rewrite ?tget_tdel in H;
+      repeat match type of H with (if ?b then _ else _) = _ => let E := fresh in destruct b eqn:E; [discriminate|] end.
+    + inversion H; subst. auto.
+    + destruct (pend_ok m I _ _ _ _ H) as (_ & _ & B). destruct (B u Hi) as [c1 (A & _ & _ & _ & R & _)]. congruence.
+    + destruct (pend_ok m I _ _ _ _ H) as (_ & _ & B). destruct (B u Hi) as [c1 (A & _ & C & _)]. congruence.
+    + destruct (pend_ok m I _ _ _ _ H) as (_ & _ & B). destruct (B u Hi) as [c1 (A & _ & C & _)]. congruence.
+  - (* PE4 *) intros u0 c0 E Hu0. chg1_tac. unfold in_use. rewrite Hpend3, tget_tset, tget_tdel.
+    destruct (Z.eqb_spec (c_conn c0) h), (Z.eqb_spec (c_ref c0) i); cbn; auto.
+    rewrite e, e0, Hp. destruct (c_st c0); auto. cbn. destruct (Z.eqb_spec u0 u); [congruence|reflexivity].
+  - (* RQ1 *) rewrite Hreqs3. apply (nd_reqs m I).
+  - (* RQ2 *) intros h' id k H. rewrite Hreqs3 in H. destruct (reqs_ok m I _ _ _ H) as [u1 [c1 (R1 & R2 & R3 & R4 & R5)]].
+    assert (u1 <> u) by (intros ->; congruence). exists u1, c1. rewrite Hm3heap.
+    destruct (Z.eqb_spec u1 u); [congruence|]. repeat split; auto.
+    rewrite Hchs3. destruct ok; auto. apply (rel_tdel _ _ _ u); auto. now rewrite Mc.
+  - (* W1 *) intros w0 x Hx. left. now rewrite Hw3.
+  - (* W2 *) intros. apply Hw3.
+  - (* W4 *) intros w0 x' Hn Hx. rewrite Hw3 in Hx. congruence.
+  - (* W5c *) intros u0 c0 c1 w0 x' E Hu0 Hc. chg1_tac. congruence.
+  - (* W5d *) intros u0 c0 c1 w0 x' E Hu0 Hc. chg1_tac. congruence.
+  - (* W5p *) intros h' id w0 us0 x' H _ _. rewrite Hpend3, tget_tset, tget_tdel.
+    destruct (Z.eqb_spec h' h), (Z.eqb_spec id i); subst; cbn; eauto.
+    rewrite Hp in H. inversion H; subst. eauto.
+  - (* W6c *) intros u0 c0 w0 E Hc. chg1_tac. congruence.
+  - (* W6d *) intros u0 c0 w0 E Hc. chg1_tac. congruence.
+Qed.
+
+(* S5: the request is answered: its entry is dropped and its future completed *)
+Lemma inv_pend_done m h i w o :
+  Inv m -> tget h i (m_pend m) = Some (w, []) -> o <> O_PENDING ->
+  Inv (wres (with_pend m (tdel h i (m_pend m))) w o).
+Proof.
+  intros I Hp Ho.
+  destruct (pend_ok m I _ _ _ _ Hp) as ([x (Hx & Hxp & Hxk & Hxc & Hxr)] & _ & _).
+  assert (Hother : forall w0 x0, wget m w0 = Some x0 -> w_kind x0 <> WOpenEnh \/ w_conn x0 <> h \/ w_ref x0 <> i ->
+                     wget (wres (with_pend m (tdel h i (m_pend m))) w o) w0 = Some x0).
+  { intros w0 x0 H0 Hd. autorewrite with acc. destruct (Z.eqb_spec w0 w); auto. subst.
+    rewrite Hx in H0. inversion H0; subst. intuition congruence. }
+  apply (inv_frame m _ chg0 I);
+    try (unfold chg0; intros; match goal with H : None = Some _ |- _ => discriminate H end).
+  - intros u. now autorewrite with acc.
+  - autorewrite with acc. apply (nd_chs m I).
+  - intros; autorewrite with acc; tauto.
+  - autorewrite with acc. apply (nd_le m I).
+  - intros; autorewrite with acc; tauto.
+  - autorewrite with acc. apply NoDup_tdel, (nd_pend m I).
+  - intros h' id w' us H. autorewrite with acc in H.
+    destruct (Z.eqb h' h && Z.eqb id i) eqn:E; [discriminate|]. left. split; auto.
+    destruct (pend_ok m I _ _ _ _ H) as ([x0 (A & _ & _ & B & C)] & _). rewrite A. apply Hother; auto.
+    apply andb_false_iff in E. rewrite !Z.eqb_neq in E. subst. intuition.
+  - intros u c _ Hu. unfold in_use. autorewrite with acc.
+    destruct (Z.eqb_spec (c_conn c) h), (Z.eqb_spec (c_ref c) i); cbn; auto.
+    rewrite e, e0, Hp. destruct (c_st c); reflexivity.
+  - autorewrite with acc. apply (nd_reqs m I).
+  - intros h' id k H. autorewrite with acc in H. destruct (reqs_ok m I _ _ _ H) as [u0 [c0 R]]. exists u0, c0.
+    now autorewrite with acc.
+  - intros w0 x0 H0. autorewrite with acc. destruct (Z.eqb_spec w0 w); auto. subst. rewrite H0. cbn.
+    right. eexists; split; eauto. rewrite Hx in H0. inversion H0; subst. rewrite wres1_out; auto.
+  - intros u c w0 _ Hu Hw.
+    assert (exists x0, wget m w0 = Some x0 /\ w_kind x0 <> WOpenEnh) as [x0 [H0 Hk]].
+    { destruct Hw as [Hw|Hw]; [destruct (ch_cw m I u c w0 Hu Hw) as (_ & _ & [x0 (A & _ & B & _)])
+                              |destruct (ch_dw m I u c w0 Hu Hw) as (_ & _ & [x0 (A & _ & B & _)])];
+        exists x0; split; auto; congruence. }
+    rewrite H0. apply Hother; auto.
+  - intros w0 x' Hn H0. autorewrite with acc in H0. destruct (Z.eqb w0 w); rewrite Hn in H0; discriminate.
+  - intros h' id w0 us x' H H0 Hp0. autorewrite with acc.
+    destruct (Z.eqb_spec h' h), (Z.eqb_spec id i); subst; cbn; eauto.
+    exfalso. rewrite Hp in H. inversion H; subst. autorewrite with acc in H0. rewrite Z.eqb_refl, Hx in H0.
+    cbn in H0. inversion H0; subst. rewrite wres1_out in Hp0; auto.
+Qed.
+
+Lemma inv_enh_each h i ok credits : forall us m dcids w,
+  Inv m -> tget h i (m_pend m) = Some (w, us) ->
+  (ok = true -> length dcids = length us /\ NoDup dcids /\ forall d, In d dcids -> tget h d (m_le m) = None) ->
+  Inv (enh_each m h i us dcids ok credits) /\
+  tget h i (m_pend (enh_each m h i us dcids ok credits)) = Some (w, []).
+Proof.
+  induction us as [|u us' IH]; intros m dcids w I Hp Hok; cbn [enh_each]; [auto|].
+  destruct dcids as [|d ds].
+  - (* no CID for this channel *)
+    assert (ok = false) by (destruct ok; auto; destruct (Hok eq_refl) as [L _]; discriminate). subst ok.
+    destruct (inv_enh_step m h i w u us' false 0 credits false I Hp) as (I3 & P3 & L3); [discriminate|].
+    cbn [tl]. apply IH; auto; [|discriminate]. cbn zeta in P3. rewrite P3, tget_tset, !Z.eqb_refl. reflexivity.
+  - destruct (inv_enh_step m h i w u us' ok d credits true I Hp) as (I3 & P3 & L3).
+    { intros E. destruct (Hok E) as (_ & _ & F). split; auto. apply F. now left. }
+    cbn [tl]. cbn zeta in *. apply IH; auto.
+    + rewrite P3, tget_tset, !Z.eqb_refl. reflexivity.
+    + intros E. destruct (Hok E) as (L & N & F). inversion N; subst. cbn in L. split; [lia|split; [auto|]].
+      intros d' Hd'. rewrite L3, tget_tset, tget_tdel. destruct (Z.eqb_spec d' d); [subst; tauto|].
+      rewrite andb_false_r. apply F. now right.
+Qed.
+
+Lemma inv_recv_enh_rsp m h id credits result dcids :
+  Inv m -> frame_ok m h (FEnhRsp id credits result dcids) = true ->
+  Inv (fst (recv_enh_rsp m h id credits result dcids)).
+Proof.
+  intros I Hok. unfold recv_enh_rsp. cbn in Hok.
+  destruct (tget h id (m_pend m)) as [[w us]|] eqn:Hp; [|auto]. cbn [fst].
+  destruct (inv_enh_each h id (Z.eqb result R_OK) credits us m dcids w I Hp) as [I1 P1].
+  { intros E. rewrite E in Hok. cbn in Hok. apply andb_true_iff in Hok. destruct Hok as [Hok H3].
+    apply andb_true_iff in Hok. destruct Hok as [H1 H2].
+    apply Nat.eqb_eq in H1. apply nodupz_NoDup in H2. apply negb_true_iff in H3. rewrite any_mem_false in H3.
+    repeat split; auto. intros d Hd. destruct (tget h d (m_le m)) eqn:Eg; auto.
+    exfalso. apply (H3 d Hd). apply tkeys_tget. congruence. }
+  apply inv_pend_done; auto. destruct (Z.eqb result R_OK); discriminate.
+Qed.
+
+(* ================================================================== every step preserves the invariant *)
+Lemma step_inv m e : Inv m -> ev_ok m e = true -> Inv (fst (step m e)).
+Proof.
+  intros I Hok. destruct e as [h kind psm n mode credits|u|u|u k|u n|h f|h]; cbn [step].
+  - destruct (Z.eqb_spec kind K_LE); [apply inv_open_le; auto|].
+    destruct (Z.eqb_spec kind K_ENH).
+    + apply inv_open_enh; auto. subst kind. cbn in *. exact Hok.
+    + apply inv_open_cl; auto.
+  - now apply inv_close.
+  - now apply inv_abort.
+  - now apply inv_write.
+  - now apply inv_grant.
+  - destruct f; cbn [recv]; cbn [ev_ok] in Hok.
+    + now apply inv_recv_conn_req.
+    + now apply inv_recv_conn_rsp.
+    + now apply inv_recv_conf_req.
+    + now apply inv_recv_conf_rsp.
+    + now apply inv_recv_disc_req.
+    + now apply inv_recv_disc_rsp.
+    + now apply inv_recv_le_req.
+    + now apply inv_recv_le_rsp.
+    + now apply inv_recv_enh_req.
+    + now apply inv_recv_enh_rsp.
+    + now apply inv_recv_credit.
+    + auto.
+    + auto.
+  - now apply inv_down.
+Qed.
+
+Lemma run_inv es : forall m, Inv m -> evs_ok m es = true -> Inv (fst (run m es)).
+Proof.
+  induction es as [|e es IH]; intros m I Hok; cbn [run]; auto.
+  cbn [evs_ok] in Hok. apply andb_true_iff in Hok. destruct Hok as [H1 H2].
+  pose proof (step_inv m e I H1) as I1.
+  destruct (step m e) as [m1 out] eqn:E. cbn [fst] in *.
+  specialize (IH m1 I1 H2). destruct (run m1 es) as [m2 outs]. exact IH.
+Qed.
+
+(* every state reachable from the initial manager by events that satisfy ev_ok *)
+Theorem reachable_inv lesrv clsrv es :
+  evs_ok (m_init lesrv clsrv) es = true -> Inv (fst (run (m_init lesrv clsrv) es)).
+Proof. apply run_inv, inv_init. Qed.
+(* ================================================================== the C09 theorems *)
+Definition reachable (m : mgr) : Prop :=
+  exists lesrv clsrv es, evs_ok (m_init lesrv clsrv) es = true /\ m = fst (run (m_init lesrv clsrv) es).
+
+Lemma reachable_Inv m : reachable m -> Inv m.
+Proof. intros (l & c & es & Hok & ->). now apply reachable_inv. Qed.
+
+Lemma reachable_step m e : reachable m -> ev_ok m e = true -> reachable (fst (step m e)).
+Proof.
+  intros (l & c & es & Hok & ->) He. exists l, c, (es ++ [e]). 
+  assert (Hrun : forall es m0, fst (run m0 (es ++ [e])) = fst (step (fst (run m0 es)) e)).
+  { clear. induction es as [|e0 es IH]; intros m0; cbn.
+    - destruct (step m0 e); reflexivity.
+    - destruct (step m0 e0) as [m1 o1]. specialize (IH m1).
+      destruct (run m1 (es ++ [e])) as [m2 o2]. destruct (run m1 es) as [m3 o3]. cbn in *. exact IH. }
+  assert (Hoks : forall es m0, evs_ok m0 (es ++ [e]) = evs_ok m0 es && ev_ok (fst (run m0 es)) e).
+  { clear. induction es as [|e0 es IH]; intros m0; cbn.
+    - now rewrite andb_true_r.
+    - rewrite IH. destruct (step m0 e0) as [m1 o1]. cbn. destruct (run m1 es) as [m3 o3]. cbn.
+      now rewrite andb_assoc. }
+  split; [|symmetry; apply Hrun]. rewrite Hoks, Hok, He. reflexivity.
+Qed.
+
+(* ---------------------------------------------------------------- tables_exact *)
+(* `channels` holds exactly the channel objects in use, each under its own connection
+   and source CID *)
+Theorem tables_exact_channels m : reachable m ->
+  forall h k u, In (h, k, u) (m_chs m) <->
+                exists c, hget m u = Some c /\ c_conn c = h /\ c_scid c = k /\ in_use m u c = true.
+Proof.
+  intros R. pose proof (reachable_Inv m R) as I. intros h k u. split.
+  - intros Hi. apply (In_tget _ _ _ _ (nd_chs m I)) in Hi.
+    destruct (chs_pt m I _ _ _ Hi) as [c (A & B & C)]. exists c. repeat split; auto.
+    apply (ch_reg m I u c A). now rewrite B, C.
+  - intros [c (A & B & C & D)]. apply (ch_reg m I u c A) in D. rewrite B, C in D. now apply tget_In.
+Qed.
+
+(* `le_coc_channels` holds exactly the connected LE credit-based channels of live
+   connections, each under its connection and the peer's CID *)
+Theorem tables_exact_le m : reachable m ->
+  forall h k u, In (h, k, u) (m_le m) <->
+                exists c, hget m u = Some c /\ c_conn c = h /\ c_dcid c = k /\ c_kind c = KLe /\
+                          c_live c = true /\ le_open_st (c_st c) = true.
+Proof.
+  intros R. pose proof (reachable_Inv m R) as I. intros h k u. split.
+  - intros Hi. apply (In_tget _ _ _ _ (nd_le m I)) in Hi. apply (le_pt m I _ _ _ Hi).
+  - intros [c (A & B & C & D & E & F)]. pose proof (ch_le m I u c A D E F) as H. rewrite B, C in H. now apply tget_In.
+Qed.
+
+(* the pending-request tables hold only requests that are still awaited *)
+Theorem tables_exact_requests m : reachable m ->
+  (forall h id k, In (h, id, k) (m_reqs m) ->
+     exists u c, In (h, k, u) (m_chs m) /\ hget m u = Some c /\ c_st c = SConnecting /\
+                 exists w, c_cw c = Some w /\ wout m w = O_PENDING) /\
+  (forall h id w us, In (h, id, (w, us)) (m_pend m) -> wout m w = O_PENDING).
+Proof.
+  intros R. pose proof (reachable_Inv m R) as I. split.
+  - intros h id k Hi. apply (In_tget _ _ _ _ (nd_reqs m I)) in Hi.
+    destruct (reqs_ok m I _ _ _ Hi) as [u [c (A & B & C & D & E)]]. exists u, c.
+    destruct (chs_self m u c h k I B A) as [-> ->].
+    repeat split; auto using tget_In.
+    apply (ch_reg m I u c B) in A. unfold in_use in A. rewrite D in A.
+    destruct (c_cw c) as [w|] eqn:Ec; [|rewrite andb_false_r in A; discriminate].
+    exists w. split; auto. destruct (ch_cw m I u c w B Ec) as (_ & _ & [x (X1 & X2 & _)]).
+    now rewrite wout_wget, X1.
+  - intros h id w us Hi. apply (In_tget _ _ _ _ (nd_pend m I)) in Hi.
+    destruct (pend_ok m I _ _ _ _ Hi) as ([x (X1 & X2 & _)] & _). now rewrite wout_wget, X1.
+Qed.
+
+(* ---------------------------------------------------------------- cids_unique *)
+Theorem cids_unique m : reachable m ->
+  NoDup (map fst (m_chs m)) /\ NoDup (map fst (m_le m)) /\
+  (forall h k h' k' u, In (h, k, u) (m_chs m) -> In (h', k', u) (m_chs m) -> h = h' /\ k = k') /\
+  (forall h k h' k' u, In (h, k, u) (m_le m) -> In (h', k', u) (m_le m) -> h = h' /\ k = k').
+Proof.
+  intros R. pose proof (reachable_Inv m R) as I.
+  split; [apply (nd_chs m I)|split; [apply (nd_le m I)|split]].
+  - intros h k h' k' u H1 H2. apply (In_tget _ _ _ _ (nd_chs m I)) in H1, H2.
+    destruct (chs_pt m I _ _ _ H1) as [c (A & <- & <-)]. destruct (chs_pt m I _ _ _ H2) as [c' (A' & <- & <-)].
+    rewrite A in A'. now inversion A'.
+  - intros h k h' k' u H1 H2. apply (In_tget _ _ _ _ (nd_le m I)) in H1, H2.
+    destruct (le_pt m I _ _ _ H1) as [c (A & <- & <- & _)]. destruct (le_pt m I _ _ _ H2) as [c' (A' & <- & <- & _)].
+    rewrite A in A'. now inversion A'.
+Qed.
+
+Lemma aget_adel h l : aget h (adel h l) = None.
+Proof.
+  unfold adel. induction l as [|[k v] l IH]; cbn; auto.
+  destruct (Z.eqb_spec k h); cbn; auto. destruct (Z.eqb_spec k h); [congruence|auto].
+Qed.
+
+(* ---------------------------------------------------------------- waiters_released *)
+(* a pending future belongs to a channel that is still filed under its connection (or to a
+   pending enhanced request of its connection): once the channel is gone nothing waits on it *)
+Theorem waiters_released_channel m : reachable m ->
+  forall w x, wget m w = Some x -> w_out x = O_PENDING ->
+  match w_kind x with
+  | WOpenEnh => exists us, In (w_conn x, w_ref x, (w, us)) (m_pend m)
+  | _ => exists c k, hget m (w_ref x) = Some c /\ In (w_conn x, k, w_ref x) (m_chs m) /\ in_use m (w_ref x) c = true
+  end.
+Proof.
+  intros R. pose proof (reachable_Inv m R) as I. intros w x Hx Hp.
+  pose proof (w_own m I w x Hx Hp) as O.
+  assert (Hc : forall c, hget m (w_ref x) = Some c -> c_live c = true -> reg_st (c_st c) = true \/ c_cw c <> None /\ (c_st c = SConnecting \/ c_st c = SWaitConnectRsp) ->
+                         c_conn c = w_conn x ->
+                         exists c0 k, hget m (w_ref x) = Some c0 /\ In (w_conn x, k, w_ref x) (m_chs m) /\ in_use m (w_ref x) c0 = true).
+  { intros c Hu Hl Hs Hcn. assert (Hin : in_use m (w_ref x) c = true).
+    { unfold in_use. rewrite Hl. destruct Hs as [Hs|[Hcw [Hs|Hs]]].
+      - destruct (c_st c); try discriminate; auto.
+      - rewrite Hs. destruct (c_cw c); [reflexivity|congruence].
+      - rewrite Hs. destruct (c_cw c); [reflexivity|congruence]. }
+    exists c, (c_scid c). repeat split; auto. rewrite <- Hcn. apply tget_In. now apply (ch_reg m I _ c Hu). }
+  destruct (w_kind x) eqn:Ek.
+  - destruct O as [c [Hu Hcw]]. destruct (ch_cw m I _ c w Hu Hcw) as (Hl & Hs & [x0 (X1 & _ & _ & X4 & _)]).
+    rewrite Hx in X1. inversion X1; subst x0. apply (Hc c Hu Hl); auto.
+    destruct (c_kind c), (c_st c); try discriminate; auto; right; split; auto; congruence.
+  - destruct O as [us Hus]. exists us. now apply tget_In.
+  - destruct O as [c [Hu Hdw]]. destruct (ch_dw m I _ c w Hu Hdw) as (Hl & Hs & [x0 (X1 & _ & _ & X4 & _)]).
+    rewrite Hx in X1. inversion X1; subst x0. apply (Hc c Hu Hl); auto.
+    left. destruct (c_kind c), (c_st c); try discriminate; auto.
+Qed.
+
+(* drain(): output is pending only on a connected channel of a live connection *)
+Theorem waiters_released_drain m : reachable m ->
+  forall u c, hget m u = Some c -> c_drained c = false ->
+  c_st c = SConnected /\ c_live c = true /\ In (c_conn c, c_scid c, u) (m_chs m).
+Proof.
+  intros R. pose proof (reachable_Inv m R) as I. intros u c Hu Hd.
+  destruct (ch_dr m I u c Hu Hd) as (A & B & C). repeat split; auto.
+  apply tget_In. apply (ch_reg m I u c Hu). unfold in_use. now rewrite B, C.
+Qed.
+
+(* when the connection is lost nothing created for it is left pending, nothing of it
+   stays in a table, and its identifier counter is forgotten *)
+Theorem waiters_released_link m h : reachable m ->
+  let m' := fst (step m (EDown h)) in
+  (forall w x, wget m' w = Some x -> w_conn x = h -> w_out x <> O_PENDING) /\
+  (forall u c, hget m' u = Some c -> c_conn c = h -> c_drained c = true /\ c_live c = false) /\
+  tconn h (m_chs m') = [] /\ tconn h (m_le m') = [] /\ tconn h (m_reqs m') = [] /\ tconn h (m_pend m') = [] /\
+  aget h (m_ids m') = None.
+Proof.
+  intros R. pose proof (reachable_Inv m R) as I.
+  assert (R' : reachable (do_down m h)) by (apply (reachable_step m (EDown h)); auto).
+  cbn [step fst]. cbv zeta.
+  assert (Hc : tconn h (m_chs (do_down m h)) = []) by apply tconn_tdrop_same.
+  assert (Hp : tconn h (m_pend (do_down m h)) = []) by apply tconn_tdrop_same.
+  split; [|split; [|split; [exact Hc|split; [apply tconn_tdrop_same|split; [apply tconn_tdrop_same|split; [exact Hp|apply aget_adel]]]]]].
+  - intros w x Hx Hcn Hpd. pose proof (waiters_released_channel _ R' w x Hx Hpd) as O.
+    destruct (w_kind x).
+    + destruct O as [c [k (_ & Hi & _)]].
+      assert (H : In (w_conn x, k, w_ref x) (tconn h (m_chs (do_down m h)))) by (apply In_tconn; auto).
+      rewrite Hc in H. destruct H.
+    + destruct O as [us Hi].
+      assert (H : In (w_conn x, w_ref x, (w, us)) (tconn h (m_pend (do_down m h)))) by (apply In_tconn; auto).
+      rewrite Hp in H. destruct H.
+    + destruct O as [c [k (_ & Hi & _)]].
+      assert (H : In (w_conn x, k, w_ref x) (tconn h (m_chs (do_down m h)))) by (apply In_tconn; auto).
+      rewrite Hc in H. destruct H.
+  - intros u c Hu Hcn. rewrite hget_down in Hu.
+    destruct (hget m u) as [c0|] eqn:Hu0; [|discriminate]. cbn in Hu. inversion Hu; subst c.
+    assert (Hc0 : c_conn c0 = h).
+    { destruct (Z.eq_dec (c_conn c0) h); auto. rewrite (down_chan_other m h u c0 I Hu0) in Hcn; auto. }
+    destruct (down_chan_facts m h u c0 I Hu0 Hc0) as (_ & _ & _ & A & _ & _ & B & _). auto.
+Qed.
+
+(* ---------------------------------------------------------------- reopen_succeeds *)
+(* Because the tables hold exactly the channels in use (tables_exact), a CID is free as soon
+   as its channel is closed.  Opening then fails locally only for a real lack of resources:
+   the whole CID range is used by channels in use on THIS connection, or (LE) the next
+   signalling identifier of THIS connection belongs to a request that is still pending. *)
+Definition le_capacity : Z := le_cid_hi - le_cid_lo + 1.
+Definition bredr_capacity : Z := bredr_cid_hi - bredr_cid_lo + 1.
+
+Lemma find_free_le_some used : Z.of_nat (length used) < le_capacity -> exists x, find_free_le used = Some x.
+Proof.
+  intros H. unfold find_free_le, find_free_le_n, le_capacity in *.
+  pose proof (find_free_n_complete le_cid_lo le_cid_hi used 1) as L.
+  destruct (find_free_n le_cid_lo le_cid_hi used 1) as [|x l] eqn:E.
+  - assert (Hx : (0 = 1)%nat); [|lia]. apply L; [lia|]. change (Z.of_nat 1) with 1. lia.
+  - exists x. reflexivity.
+Qed.
+
+Lemma find_free_bredr_some used : Z.of_nat (length used) < bredr_capacity -> exists x, find_free_bredr used = Some x.
+Proof.
+  intros H. unfold find_free_bredr, bredr_capacity in *.
+  pose proof (find_free_n_complete bredr_cid_lo bredr_cid_hi used 1) as L.
+  destruct (find_free_n bredr_cid_lo bredr_cid_hi used 1) as [|x l] eqn:E.
+  - assert (Hx : (0 = 1)%nat); [|lia]. apply L; [lia|]. change (Z.of_nat 1) with 1. lia.
+  - exists x. reflexivity.
+Qed.
+
+(* client side, LE credit-based: the request goes out with a CID no channel in use has *)
+Theorem reopen_le_request m h psm credits : reachable m ->
+  Z.of_nat (length (tkeys h (m_chs m))) < le_capacity ->
+  tget h (nid m h) (m_reqs m) = None ->
+  exists scid,
+    snd (step m (EOpen h K_LE psm 1 0 credits)) = [FLeReq (nid m h) psm scid credits] /\
+    le_cid_lo <= scid <= le_cid_hi /\ tget h scid (m_chs m) = None /\
+    let m1 := fst (step m (EOpen h K_LE psm 1 0 credits)) in
+    wout m1 (wuid m) = O_PENDING /\ In (h, scid, huid m) (m_chs m1) /\
+    tget h (nid m h) (m_reqs m1) = Some scid.
+Proof.
+  intros R Hcap Hid. destruct (find_free_le_some _ Hcap) as [scid Hs].
+  exists scid. cbn [step]. rewrite Z.eqb_refl. unfold open_le. rewrite Hs.
+  repeat match goal with |- context [nid (with_chs (hnew m ?c) ?t) h] =>
+    change (nid (with_chs (hnew m c) t) h) with (nid m h) end.
+  cbn [m_reqs next_id with_ids with_chs hnew with_heap]. rewrite Hid. cbn [fst snd].
+  assert (Hfree : tget h scid (m_chs m) = None) by (eapply find_free_le_fresh; eauto).
+  assert (Hrange : le_cid_lo <= scid <= le_cid_hi).
+  { unfold find_free_le, find_free_le_n in Hs. destruct (find_free_n _ _ _ _) as [|y l] eqn:E; [discriminate|].
+    inversion Hs; subst. eapply find_free_n_spec. rewrite E. now left. }
+  repeat split; auto; try lia.
+  - rewrite wout_wget. autorewrite with acc. now rewrite Z.eqb_refl.
+  - apply tget_In. autorewrite with acc. now rewrite !Z.eqb_refl.
+  - autorewrite with acc. now rewrite !Z.eqb_refl.
+Qed.
+
+(* ... and when the peer accepts, create_l2cap_channel returns and the channel is filed *)
+Theorem reopen_le_completes m h psm credits dcid credits' : reachable m ->
+  Z.of_nat (length (tkeys h (m_chs m))) < le_capacity ->
+  tget h (nid m h) (m_reqs m) = None ->
+  let m1 := fst (step m (EOpen h K_LE psm 1 0 credits)) in
+  tget h dcid (m_le m1) = None ->
+  let m2 := fst (step m1 (ERecv h (FLeRsp (nid m h) dcid credits' R_OK))) in
+  wout m2 (wuid m) = O_RESULT /\
+  exists c, hget m2 (huid m) = Some c /\ c_st c = SConnected /\ c_dcid c = dcid /\
+            In (h, c_scid c, huid m) (m_chs m2) /\ In (h, dcid, huid m) (m_le m2).
+Proof.
+  intros R Hcap Hid m1 Hd m2.
+  destruct (reopen_le_request m h psm credits R Hcap Hid) as [scid (_ & _ & Hfree & Hw & Hin & Hreq)].
+  fold m1 in Hw, Hin, Hreq.
+  assert (R1 : reachable m1) by (apply reachable_step; auto).
+  pose proof (reachable_Inv m1 R1) as I1.
+  assert (Hu : exists c, hget m1 (huid m) = Some c /\ c_kind c = KLe /\ c_conn c = h /\ c_scid c = scid /\
+                         c_st c = SConnecting /\ c_cw c = Some (wuid m) /\ c_dcid c = 0).
+  { subst m1. cbn [step]. rewrite Z.eqb_refl. unfold open_le.
+    destruct (find_free_le_some _ Hcap) as [s Hs]. rewrite Hs.
+    repeat match goal with |- context [nid (with_chs (hnew m ?c) ?t) h] =>
+    change (nid (with_chs (hnew m c) t) h) with (nid m h) end.
+  cbn [m_reqs next_id with_ids with_chs hnew with_heap]. rewrite Hid. cbn [fst].
+    assert (s = scid).
+    { revert Hreq. cbn [step]. rewrite Z.eqb_refl. unfold open_le. rewrite Hs.
+      repeat match goal with |- context [nid (with_chs (hnew m ?c) ?t) h] =>
+    change (nid (with_chs (hnew m c) t) h) with (nid m h) end.
+  cbn [m_reqs next_id with_ids with_chs hnew with_heap]. rewrite Hid. cbn [fst].
+      autorewrite with acc. rewrite !Z.eqb_refl. cbn. congruence. }
+    subst s. eexists. autorewrite with acc. rewrite !Z.eqb_refl. cbn. split; [reflexivity|]. cbn. repeat split; auto. }
+  destruct Hu as [c (Hu & Ek & Ec & Es & Est & Ecw & Edc)].
+  assert (Hchs : tget h scid (m_chs m1) = Some (huid m)) by (apply (In_tget _ _ _ _ (nd_chs m1 I1)); auto).
+  subst m2. cbn [step recv]. unfold recv_le_rsp. rewrite Hreq. cbn [m_chs with_reqs].
+  rewrite Hchs. change (hget (with_reqs m1 (tdel h (nid m h) (m_reqs m1))) (huid m)) with (hget m1 (huid m)).
+  rewrite Hu, Ecw. rewrite Z.eqb_refl. cbn [fst]. unfold le_register. autorewrite with acc. rewrite Hu, Z.eqb_refl. cbn [option_map].
+  split.
+  - rewrite wout_wget. autorewrite with acc. rewrite Z.eqb_refl.
+    rewrite wout_wget in Hw. destruct (wget m1 (wuid m)) as [x|] eqn:Ex; [|discriminate]. cbn.
+    unfold wres1. rewrite Hw. reflexivity.
+  - eexists. split; [autorewrite with acc; rewrite Z.eqb_refl, Hu; reflexivity|]. cbn. rewrite Es, Ec.
+    repeat split; auto.
+    + apply tget_In. now autorewrite with acc.
+    + apply tget_In. autorewrite with acc. now rewrite !Z.eqb_refl.
+Qed.
+
+(* server side: a request whose source CID no connected channel of the connection uses is
+   accepted as long as a local CID is free *)
+Theorem reopen_le_accept m h id psm scid credits srv : reachable m ->
+  srv_get psm (m_lesrv m) = Some srv ->
+  tget h scid (m_le m) = None ->
+  Z.of_nat (length (tkeys h (m_chs m))) < le_capacity ->
+  exists local,
+    snd (step m (ERecv h (FLeReq id psm scid credits))) = [FLeRsp id local srv R_OK] /\
+    le_cid_lo <= local <= le_cid_hi /\ tget h local (m_chs m) = None /\
+    let m1 := fst (step m (ERecv h (FLeReq id psm scid credits))) in
+    In (h, local, huid m) (m_chs m1) /\ In (h, scid, huid m) (m_le m1).
+Proof.
+  intros R Hsrv Hle Hcap. destruct (find_free_le_some _ Hcap) as [local Hs].
+  exists local. cbn [step recv]. unfold recv_le_req. rewrite Hsrv.
+  assert (Hm : memz scid (tkeys h (m_le m)) = false).
+  { apply memz_false. intros Hi. apply tkeys_tget in Hi. congruence. }
+  rewrite Hm, Hs. cbn [fst snd new_le_chans].
+  assert (Hfree : tget h local (m_chs m) = None) by (eapply find_free_le_fresh; eauto).
+  assert (Hrange : le_cid_lo <= local <= le_cid_hi).
+  { unfold find_free_le, find_free_le_n in Hs. destruct (find_free_n _ _ _ _) as [|y l] eqn:E; [discriminate|].
+    inversion Hs; subst. eapply find_free_n_spec. rewrite E. now left. }
+  repeat split; auto; try lia.
+  - apply tget_In. autorewrite with acc. now rewrite !Z.eqb_refl.
+  - apply tget_In. autorewrite with acc. now rewrite !Z.eqb_refl.
+Qed.
+
+(* classic: create_classic_channel sends its request whenever a CID of the range is free *)
+Theorem reopen_classic_request m h psm mode : reachable m ->
+  Z.of_nat (length (tkeys h (m_chs m))) < bredr_capacity ->
+  exists scid,
+    snd (step m (EOpen h K_CL psm 1 mode 0)) = [FConnReq (nid m h) psm scid] /\
+    bredr_cid_lo <= scid <= bredr_cid_hi /\ tget h scid (m_chs m) = None /\
+    let m1 := fst (step m (EOpen h K_CL psm 1 mode 0)) in
+    wout m1 (wuid m) = O_PENDING /\ In (h, scid, huid m) (m_chs m1).
+Proof.
+  intros R Hcap. destruct (find_free_bredr_some _ Hcap) as [scid Hs].
+  exists scid. cbn [step]. change (Z.eqb K_CL K_LE) with false. change (Z.eqb K_CL K_ENH) with false. cbn iota.
+  unfold open_cl. rewrite Hs. cbn [fst snd].
+  assert (Hfree : tget h scid (m_chs m) = None) by (eapply find_free_bredr_fresh; eauto).
+  assert (Hrange : bredr_cid_lo <= scid <= bredr_cid_hi).
+  { unfold find_free_bredr in Hs. destruct (find_free_n _ _ _ _) as [|y l] eqn:E; [discriminate|].
+    inversion Hs; subst. eapply find_free_n_spec. rewrite E. now left. }
+  repeat split; auto; try lia.
+  - rewrite wout_wget. autorewrite with acc. now rewrite Z.eqb_refl.
+  - apply tget_In. autorewrite with acc. now rewrite !Z.eqb_refl.
+Qed.
+(* ================================================================== links_independent *)
+(* what belongs to connection b: its entries in the five tables, its channel objects, the
+   futures created for it *)
+Record same_conn (b : Z) (m m' : mgr) : Prop := {
+  sc_chs : forall k, tget b k (m_chs m') = tget b k (m_chs m);
+  sc_le : forall k, tget b k (m_le m') = tget b k (m_le m);
+  sc_reqs : forall k, tget b k (m_reqs m') = tget b k (m_reqs m);
+  sc_pend : forall k, tget b k (m_pend m') = tget b k (m_pend m);
+  sc_ids : aget b (m_ids m') = aget b (m_ids m);
+  sc_heap : forall u c, c_conn c = b -> (hget m' u = Some c <-> hget m u = Some c);
+  sc_w : forall w x, w_conn x = b -> (wget m' w = Some x <-> wget m w = Some x)
+}.
+
+Lemma sc_refl b m : same_conn b m m.
+Proof. constructor; intros; tauto. Qed.
+
+Lemma sc_trans b m1 m2 m3 : same_conn b m1 m2 -> same_conn b m2 m3 -> same_conn b m1 m3.
+Proof.
+  intros [a1 a2 a3 a4 a5 a6 a7] [b1 b2 b3 b4 b5 b6 b7]. constructor.
+  - intros k. now rewrite b1.
+  - intros k. now rewrite b2.
+  - intros k. now rewrite b3.
+  - intros k. now rewrite b4.
+  - congruence.
+  - intros u c Hc. rewrite (b6 u c Hc). auto.
+  - intros w x Hx. rewrite (b7 w x Hx). auto.
+Qed.
+
+(* a sufficient condition in terms of the accessors, used for every step: each channel
+   object / future is unchanged, or is not of connection b before and after *)
+Lemma sc_intro b m m' :
+  (forall k, tget b k (m_chs m') = tget b k (m_chs m)) ->
+  (forall k, tget b k (m_le m') = tget b k (m_le m)) ->
+  (forall k, tget b k (m_reqs m') = tget b k (m_reqs m)) ->
+  (forall k, tget b k (m_pend m') = tget b k (m_pend m)) ->
+  aget b (m_ids m') = aget b (m_ids m) ->
+  (forall u, hget m' u = hget m u \/
+             ((forall c, hget m u = Some c -> c_conn c <> b) /\ (forall c, hget m' u = Some c -> c_conn c <> b))) ->
+  (forall w, wget m' w = wget m w \/
+             ((forall x, wget m w = Some x -> w_conn x <> b) /\ (forall x, wget m' w = Some x -> w_conn x <> b))) ->
+  same_conn b m m'.
+Proof.
+  intros H1 H2 H3 H4 H5 H6 H7. constructor; auto.
+  - intros u c Hc. destruct (H6 u) as [E|[A B]].
+    + rewrite E. tauto.
+    + split; intros H; exfalso; [apply (B c H)|apply (A c H)]; auto.
+  - intros w x Hx. destruct (H7 w) as [E|[A B]].
+    + rewrite E. tauto.
+    + split; intros H; exfalso; [apply (B x H)|apply (A x H)]; auto.
+Qed.
+
+Lemma aget_adel_other b a l : b <> a -> aget b (adel a l) = aget b l.
+Proof.
+  intros Hn. unfold adel. induction l as [|[k v] l IH]; cbn; auto.
+  destruct (Z.eqb_spec k a); cbn; subst.
+  - destruct (Z.eqb_spec a b); [congruence|auto].
+  - destruct (Z.eqb_spec k b); auto.
+Qed.
+
+Lemma ids_next_id_other m a b : b <> a -> aget b (m_ids (next_id m a)) = aget b (m_ids m).
+Proof.
+  intros Hn. unfold next_id. cbn. destruct (Z.eqb_spec a b); [congruence|]. now apply aget_adel_other.
+Qed.
+
+Lemma ids_occ' m u c : m_ids (on_channel_closed m u c) = m_ids m.
+Proof. apply ids_occ. Qed.
+#[export] Hint Rewrite ids_with_chs ids_with_le ids_with_reqs ids_with_pend ids_with_heap ids_with_w : acc.
+
+(* tactics for the table goals: every table operation of a step concerns handle a <> b *)
+Ltac sc_tab :=
+  match goal with
+  | |- forall _, tget _ _ _ = _ => idtac
+  | |- aget _ _ = _ => idtac
+  | |- forall _, _ <> _ -> hget _ _ = _ => idtac
+  end;
+  intros; autorewrite with acc; rewrite ?ids_next_id_other by congruence; autorewrite with acc;
+  cbn [c_conn c_scid c_dcid set_cw set_dw set_st set_out set_dcid set_ref set_live flush_output process_output];
+  repeat match goal with
+         | |- context [if is_uid ?o ?u then _ else _] => destruct (is_uid o u)
+         | |- context [match ?o with Some _ => _ | None => _ end] => destruct o
+         end;
+  autorewrite with acc;
+  repeat match goal with
+         | |- context [Z.eqb ?x ?y] => destruct (Z.eqb_spec x y); subst; cbn [andb]; try congruence
+         end; auto.
+
+(* one channel of connection a changes, futures of connection a are completed *)
+Lemma sc_one b a m m' u c :
+  b <> a -> hget m u = Some c -> c_conn c = a ->
+  (forall k, tget b k (m_chs m') = tget b k (m_chs m)) ->
+  (forall k, tget b k (m_le m') = tget b k (m_le m)) ->
+  (forall k, tget b k (m_reqs m') = tget b k (m_reqs m)) ->
+  (forall k, tget b k (m_pend m') = tget b k (m_pend m)) ->
+  aget b (m_ids m') = aget b (m_ids m) ->
+  (forall u', u' <> u -> hget m' u' = hget m u') ->
+  (forall c', hget m' u = Some c' -> c_conn c' = a) ->
+  (forall w, wget m' w = wget m w \/
+             ((forall x, wget m w = Some x -> w_conn x = a) /\ (forall x, wget m' w = Some x -> w_conn x = a))) ->
+  same_conn b m m'.
+Proof.
+  intros Hn Hu Hc H1 H2 H3 H4 H5 H6 H6u H7. apply sc_intro; auto.
+  - intros u'. destruct (Z.eq_dec u' u) as [->|Hd]; [|left; auto].
+    right. split.
+    + intros c0 H0. rewrite Hu in H0. inversion H0; subst. congruence.
+    + intros c0 H0. rewrite (H6u c0 H0). congruence.
+  - intros w. destruct (H7 w) as [E|[A B]]; auto. right. split; intros x Hx; [rewrite (A x Hx)|rewrite (B x Hx)]; congruence.
+Qed.
+
+(* the changed channel stays on its connection *)
+Ltac sc_self Hu :=
+  intros;
+  match goal with
+  | H : hget _ _ = Some ?c' |- c_conn ?c' = _ =>
+      autorewrite with acc in H; rewrite ?Z.eqb_refl, ?Hu in H; cbn [option_map] in H;
+      repeat (autorewrite with acc in H; rewrite ?Z.eqb_refl, ?Hu in H; cbn [option_map] in H);
+      injection H as <-; try reflexivity; cbn; auto
+  end.
+
+Lemma sc_write b m u k c : hget m u = Some c -> b <> c_conn c -> same_conn b m (fst (do_write m u k)).
+Proof.
+  intros Hu Hn. unfold do_write. rewrite Hu.
+  destruct (c_kind c); [|apply sc_refl]. destruct (c_st c); try apply sc_refl. cbn [fst].
+  apply (sc_one b (c_conn c) m _ u c); auto; try sc_tab; try sc_self Hu.
+  intros w; left; autorewrite with acc; reflexivity.
+Qed.
+
+Lemma sc_grant b m u n c : hget m u = Some c -> b <> c_conn c -> same_conn b m (fst (do_grant m u n)).
+Proof.
+  intros Hu Hn. unfold do_grant. rewrite Hu. cbn [fst].
+  apply sc_intro; try sc_tab; try (intros; left; autorewrite with acc; reflexivity).
+Qed.
+
+Lemma w_conn_wres1 o x : w_conn (wres1 o x) = w_conn x.
+Proof. unfold wres1. destruct (Z.eqb _ _); reflexivity. Qed.
+
+(* futures completed by a step on a channel of connection a are futures of connection a *)
+Lemma sc_w_opt a m (o : option Z) r w (gw : option waiter) :
+  (forall x, o = Some w -> wget m w = Some x -> w_conn x = a) ->
+  (gw = wget m w \/
+   ((forall x, wget m w = Some x -> w_conn x = a) /\ (forall x, gw = Some x -> w_conn x = a))) ->
+  (if is_uid o w then option_map (wres1 r) gw else gw) = wget m w \/
+  ((forall x, wget m w = Some x -> w_conn x = a) /\
+   (forall x, (if is_uid o w then option_map (wres1 r) gw else gw) = Some x -> w_conn x = a)).
+Proof.
+  intros Ho Hg. destruct (is_uid o w) eqn:E; [|exact Hg].
+  apply is_uid_iff in E. right. destruct Hg as [Eg|[A B]].
+  - rewrite Eg. split; [intros x Hx; eapply Ho; eauto|].
+    intros x Hx. destruct (wget m w) as [x0|] eqn:E0; [|discriminate]. cbn in Hx. inversion Hx; subst.
+    rewrite w_conn_wres1. eapply Ho; eauto.
+  - split; auto. intros x Hx. destruct gw as [x0|] eqn:E0; [|discriminate]. cbn in Hx. inversion Hx; subst.
+    rewrite w_conn_wres1. auto.
+Qed.
+
+Lemma cw_conn m u c : Inv m -> hget m u = Some c -> forall w x, c_cw c = Some w -> wget m w = Some x -> w_conn x = c_conn c.
+Proof. intros I Hu w x Hc Hx. destruct (ch_cw m I u c w Hu Hc) as (_ & _ & [x0 (A & _ & _ & B & _)]). congruence. Qed.
+Lemma dw_conn m u c : Inv m -> hget m u = Some c -> forall w x, c_dw c = Some w -> wget m w = Some x -> w_conn x = c_conn c.
+Proof. intros I Hu w x Hc Hx. destruct (ch_dw m I u c w Hu Hc) as (_ & _ & [x0 (A & _ & _ & B & _)]). congruence. Qed.
+
+Ltac sc_wait I Hu :=
+  match goal with |- forall _, wget _ _ = _ \/ _ => idtac end;
+  let w := fresh "w" in
+  intros w;
+  match goal with |- ?L = _ \/ _ =>
+    let X := fresh "X" in let EX := fresh "EX" in
+    remember L as X eqn:EX; autorewrite with accw in EX; subst X end;
+  repeat (apply sc_w_opt; [intros ? ?; first [solve [eapply cw_conn; eauto] | solve [eapply dw_conn; eauto]]|]);
+  left; reflexivity.
+
+Lemma sc_abort b m u c : Inv m -> hget m u = Some c -> b <> c_conn c -> same_conn b m (abort_chan m u).
+Proof.
+  intros I Hu Hn. unfold abort_chan. rewrite Hu.
+  destruct (c_kind c).
+  - destruct (match c_st c with SConnected | SDisconnecting => true | _ => false end);
+      apply (sc_one b (c_conn c) m _ u c); auto; try sc_wait I Hu; try sc_tab; try sc_self Hu.
+  - destruct (match c_st c with SOpen | SWaitDisconnect => true | _ => false end);
+      apply (sc_one b (c_conn c) m _ u c); auto; try sc_wait I Hu; try sc_tab; try sc_self Hu.
+Qed.
+
+(* futures created by the step: a new one for connection a *)
+Ltac sc_wait_new I Hu :=
+  match goal with |- forall _, wget _ _ = _ \/ _ => idtac end;
+  let w := fresh "w" in
+  intros w; autorewrite with acc;
+  match goal with
+  | |- context [Z.eqb w (wuid ?m)] =>
+      destruct (Z.eqb_spec w (wuid m));
+      [right; split; [intros x Hx; subst; rewrite wget_wuid in Hx; discriminate
+                     |intros x Hx; injection Hx as <-; reflexivity]
+      |left; reflexivity]
+  end.
+
+Lemma sc_close b m u c : Inv m -> hget m u = Some c -> b <> c_conn c -> same_conn b m (fst (do_close m u)).
+Proof.
+  intros I Hu Hn. unfold do_close. rewrite Hu.
+  destruct (negb _); cbn [fst].
+  - apply sc_intro; try sc_tab; try (intros; left; autorewrite with acc; reflexivity).
+    intros w. autorewrite with acc. destruct (Z.eqb_spec w (wuid m)); [|left; reflexivity].
+    right. split; [intros x Hx; subst; rewrite wget_wuid in Hx; discriminate|intros x Hx; injection Hx as <-; cbn; auto].
+  - apply (sc_one b (c_conn c) m _ u c); auto; try sc_tab; try sc_wait_new I Hu.
+    intros c' H. autorewrite with acc in H. rewrite Z.eqb_refl, Hu in H. cbn in H. injection H as <-.
+    destruct (c_kind c); reflexivity.
+Qed.
+
+Lemma sc_recv_credit b m h cid n : Inv m -> b <> h -> same_conn b m (fst (recv_credit m h cid n)).
+Proof.
+  intros I Hn. unfold recv_credit.
+  destruct (tget h cid (m_le m)) as [u|] eqn:Et; [|apply sc_refl].
+  destruct (hget m u) as [c|] eqn:Hu; [|apply sc_refl]. cbn [fst].
+  destruct (le_self m u c h cid I Hu Et) as (-> & _).
+  apply (sc_one b (c_conn c) m _ u c); auto; try sc_tab; try sc_self Hu.
+  intros w; left; autorewrite with acc; reflexivity.
+Qed.
+
+Lemma sc_recv_disc_req b m h id dcid scid : Inv m -> b <> h -> same_conn b m (fst (recv_disc_req m h id dcid scid)).
+Proof.
+  intros I Hn. unfold recv_disc_req.
+  destruct (tget h dcid (m_chs m)) as [u|] eqn:Et; [|apply sc_refl].
+  destruct (hget m u) as [c|] eqn:Hu; [|apply sc_refl].
+  destruct (chs_self m u c h dcid I Hu Et) as [-> ->].
+  destruct (c_kind c); cbn [fst].
+  - apply (sc_one b (c_conn c) m _ u c); auto; try sc_wait I Hu; try sc_tab; try sc_self Hu.
+  - destruct (wpending m (c_cw c)); unfold cl_connect_failed;
+      apply (sc_one b (c_conn c) m _ u c); auto; try sc_wait I Hu; try sc_tab; try sc_self Hu.
+Qed.
+
+Lemma sc_recv_disc_rsp b m h id dcid scid : Inv m -> b <> h -> same_conn b m (fst (recv_disc_rsp m h id dcid scid)).
+Proof.
+  intros I Hn. unfold recv_disc_rsp.
+  destruct (tget h scid (m_chs m)) as [u|] eqn:Et; [|apply sc_refl].
+  destruct (hget m u) as [c|] eqn:Hu; [|apply sc_refl].
+  destruct (chs_self m u c h scid I Hu Et) as [-> ->].
+  destruct (c_kind c).
+  - destruct (c_st c); try apply sc_refl. destruct (negb _); [apply sc_refl|]. cbn [fst].
+    apply (sc_one b (c_conn c) m _ u c); auto; try sc_wait I Hu; try sc_tab; try sc_self Hu.
+  - destruct (negb _); [apply sc_refl|]. cbn [fst].
+    apply (sc_one b (c_conn c) m _ u c); auto; try sc_wait I Hu; try sc_tab; try sc_self Hu.
+Qed.
+
+Lemma sc_recv_le_rsp b m h id dcid credits result :
+  Inv m -> b <> h -> same_conn b m (fst (recv_le_rsp m h id dcid credits result)).
+Proof.
+  intros I Hn. unfold recv_le_rsp.
+  destruct (tget h id (m_reqs m)) as [scid|] eqn:Er; [|apply sc_refl].
+  assert (S0 : same_conn b m (with_reqs m (tdel h id (m_reqs m)))).
+  { apply sc_intro; try sc_tab; try (intros; left; autorewrite with acc; reflexivity). }
+  cbn [m_chs with_reqs].
+  destruct (tget h scid (m_chs m)) as [u|] eqn:Et; [|exact S0].
+  change (hget (with_reqs m (tdel h id (m_reqs m))) u) with (hget m u).
+  destruct (hget m u) as [c|] eqn:Hu; [|exact S0].
+  destruct (chs_self m u c h scid I Hu Et) as [-> ->].
+  destruct (c_cw c) as [w0|] eqn:Hcw; [|exact S0].
+  assert (Hw0 : forall x, wget m w0 = Some x -> w_conn x = c_conn c) by (intros; eapply cw_conn; eauto).
+  destruct (Z.eqb result R_OK); cbn [fst].
+  - unfold le_register. autorewrite with acc. rewrite Hu, Z.eqb_refl. cbn [option_map].
+    apply (sc_one b (c_conn c) m _ u c); auto; try sc_tab; try sc_self Hu.
+    intros w. autorewrite with acc. destruct (Z.eqb_spec w w0); [|left; reflexivity]. subst.
+    right. split; auto. intros x Hx. destruct (wget m w0) as [x0|] eqn:E0; [|discriminate].
+    cbn in Hx. injection Hx as <-. rewrite w_conn_wres1. auto.
+  - apply (sc_one b (c_conn c) m _ u c); auto; try sc_tab; try sc_self Hu.
+    intros w. autorewrite with acc. destruct (Z.eqb_spec w w0); [|left; reflexivity]. subst.
+    right. split; auto. intros x Hx. destruct (wget m w0) as [x0|] eqn:E0; [|discriminate].
+    cbn in Hx. injection Hx as <-. rewrite w_conn_wres1. auto.
+Qed.
+
+Lemma cl_found_conn m h cid u c : Inv m -> find_cl m h cid = Some (u, c) -> hget m u = Some c /\ c_conn c = h.
+Proof. intros I H. destruct (cl_found m h cid u c I H) as (A & _ & B & _). auto. Qed.
+
+Lemma sc_recv_conn_rsp b m h id dcid scid result :
+  Inv m -> b <> h -> same_conn b m (fst (recv_conn_rsp m h id dcid scid result)).
+Proof.
+  intros I Hn. unfold recv_conn_rsp.
+  destruct (find_cl m h scid) as [[u c]|] eqn:Ef; [|apply sc_refl].
+  destruct (cl_found_conn m h scid u c I Ef) as [Hu <-].
+  destruct (c_st c); try apply sc_refl.
+  destruct (Z.eqb result R_OK); cbn [fst].
+  - apply (sc_one b (c_conn c) m _ u c); auto; try sc_tab; try sc_self Hu.
+    intros w; left; autorewrite with acc; reflexivity.
+  - destruct (Z.eqb result R_PENDING); [apply sc_refl|].
+    destruct (wpending _ _); cbn [fst]; unfold cl_connect_failed;
+      apply (sc_one b (c_conn c) m _ u c); auto; try sc_wait I Hu; try sc_tab; try sc_self Hu;
+      try (intros w; left; autorewrite with acc; reflexivity).
+Qed.
+
+Lemma sc_recv_conf_rsp b m h id scid result :
+  Inv m -> b <> h -> same_conn b m (fst (recv_conf_rsp m h id scid result)).
+Proof.
+  intros I Hn. unfold recv_conf_rsp.
+  destruct (find_cl m h scid) as [[u c]|] eqn:Ef; [|apply sc_refl].
+  destruct (cl_found_conn m h scid u c I Ef) as [Hu <-].
+  destruct (Z.eqb result 0).
+  - destruct (c_st c); try apply sc_refl; cbn [fst];
+      apply (sc_one b (c_conn c) m _ u c); auto; try sc_wait I Hu; try sc_tab; try sc_self Hu;
+      try (intros w; left; autorewrite with acc; reflexivity).
+  - destruct (Z.eqb result CONF_UNACCEPTABLE); [|apply sc_refl]. cbn [fst].
+    apply sc_intro; try sc_tab; try (intros; left; autorewrite with acc; reflexivity).
+Qed.
+
+Lemma sc_recv_conf_req b m h id dcid rfc bad :
+  Inv m -> b <> h -> same_conn b m (fst (recv_conf_req m h id dcid rfc bad)).
+Proof.
+  intros I Hn. unfold recv_conf_req.
+  destruct (find_cl m h dcid) as [[u c]|] eqn:Ef; [|apply sc_refl].
+  destruct (cl_found_conn m h dcid u c I Ef) as [Hu <-].
+  destruct (negb _); [apply sc_refl|].
+  destruct (_ && _).
+  - cbn [fst]. destruct (wpending m (c_cw c)); unfold cl_connect_failed;
+      apply (sc_one b (c_conn c) m _ u c); auto; try sc_wait I Hu; try sc_tab; try sc_self Hu.
+  - destruct bad; [apply sc_refl|].
+    destruct (c_st c); cbn [fst];
+      apply (sc_one b (c_conn c) m _ u c); auto; try sc_wait I Hu; try sc_tab; try sc_self Hu;
+      try (intros w; left; autorewrite with acc; reflexivity).
+Qed.
+
+Lemma wlen_with_chs m x : wuid (with_chs m x) = wuid m. Proof. reflexivity. Qed.
+Lemma hlen_with_chs m x : huid (with_chs m x) = huid m. Proof. reflexivity. Qed.
+Lemma wlen_with_le m x : wuid (with_le m x) = wuid m. Proof. reflexivity. Qed.
+Lemma hlen_with_le m x : huid (with_le m x) = huid m. Proof. reflexivity. Qed.
+Lemma wlen_with_reqs m x : wuid (with_reqs m x) = wuid m. Proof. reflexivity. Qed.
+Lemma hlen_with_reqs m x : huid (with_reqs m x) = huid m. Proof. reflexivity. Qed.
+Lemma wlen_with_pend m x : wuid (with_pend m x) = wuid m. Proof. reflexivity. Qed.
+Lemma hlen_with_pend m x : huid (with_pend m x) = huid m. Proof. reflexivity. Qed.
+Lemma wlen_with_ids m x : wuid (with_ids m x) = wuid m. Proof. reflexivity. Qed.
+Lemma hlen_with_ids m x : huid (with_ids m x) = huid m. Proof. reflexivity. Qed.
+#[export] Hint Rewrite wlen_with_chs hlen_with_chs wlen_with_le hlen_with_le wlen_with_reqs hlen_with_reqs wlen_with_pend hlen_with_pend wlen_with_ids hlen_with_ids : acc.
+
+(* ---------------------------------------------------------------- new channel objects *)
+Ltac sc_heap_new :=
+  match goal with |- forall _, hget _ _ = _ \/ _ => idtac end;
+  let u' := fresh "u'" in
+  intros u'; autorewrite with acc;
+  repeat match goal with
+         | |- context [Z.eqb u' (huid ?m)] =>
+             destruct (Z.eqb_spec u' (huid m));
+             [right; split; [intros c0 H0; subst; rewrite hget_huid in H0; discriminate
+                            |intros c0 H0; cbn in H0; injection H0 as <-; cbn; congruence]|]
+         end; left; reflexivity.
+
+Ltac sc_w_new :=
+  match goal with |- forall _, wget _ _ = _ \/ _ => idtac end;
+  let w := fresh "w" in
+  intros w; autorewrite with acc;
+  repeat match goal with
+         | |- context [Z.eqb w (wuid ?m)] =>
+             destruct (Z.eqb_spec w (wuid m));
+             [right; split; [intros x Hx; subst; rewrite wget_wuid in Hx; discriminate
+                            |intros x Hx; injection Hx as <-; cbn; congruence]|]
+         end; left; reflexivity.
+
+Lemma sc_open_cl b m h psm mode : b <> h -> same_conn b m (fst (open_cl m h psm mode)).
+Proof.
+  intros Hn. unfold open_cl. destruct (find_free_bredr _); cbn [fst];
+    apply sc_intro; try sc_tab; try sc_heap_new; try sc_w_new.
+Qed.
+
+Lemma sc_open_le b m h psm credits : b <> h -> same_conn b m (fst (open_le m h psm credits)).
+Proof.
+  intros Hn. unfold open_le. destruct (find_free_le _); cbn [fst].
+  - destruct (tget _ _ _); cbn [fst]; apply sc_intro; try sc_tab; try sc_heap_new; try sc_w_new.
+  - apply sc_intro; try sc_tab; try sc_heap_new; try sc_w_new.
+Qed.
+
+Lemma sc_recv_conn_req b m h id psm scid : b <> h -> same_conn b m (fst (recv_conn_req m h id psm scid)).
+Proof.
+  intros Hn. unfold recv_conn_req. destruct (srv_get _ _); [|apply sc_refl].
+  destruct (find_free_bredr _); cbn [fst]; [|apply sc_refl].
+  apply sc_intro; try sc_tab; try sc_heap_new; try sc_w_new.
+Qed.
+
+Lemma sc_new_le_chans b h st credits r regle pairs : forall m, b <> h ->
+  same_conn b m (fst (new_le_chans m h st credits r regle pairs)).
+Proof.
+  induction pairs as [|[s d] ps IH]; intros m Hn; cbn [new_le_chans fst]; [apply sc_refl|].
+  match goal with |- same_conn b m (fst (let '(m3, us) := new_le_chans ?mm _ _ _ _ _ _ in _)) =>
+    specialize (IH mm Hn); destruct (new_le_chans mm h st credits r regle ps) as [m3 us] eqn:E end.
+  cbn [fst] in *. eapply sc_trans; [|exact IH].
+  destruct regle; apply sc_intro; try sc_tab; try sc_heap_new; try sc_w_new.
+Qed.
+
+Lemma sc_recv_le_req b m h id psm scid credits : b <> h -> same_conn b m (fst (recv_le_req m h id psm scid credits)).
+Proof.
+  intros Hn. unfold recv_le_req. destruct (srv_get _ _); [|apply sc_refl].
+  destruct (memz _ _); [apply sc_refl|]. destruct (find_free_le _); cbn [fst]; [|apply sc_refl].
+  now apply sc_new_le_chans.
+Qed.
+
+Lemma sc_recv_enh_req b m h id psm credits scids : b <> h -> same_conn b m (fst (recv_enh_req m h id psm credits scids)).
+Proof.
+  intros Hn. unfold recv_enh_req. destruct (srv_get _ _); [|apply sc_refl].
+  destruct (any_mem _ _); [apply sc_refl|]. destruct (find_free_le_n _ _); cbn [fst]; [apply sc_refl|].
+  now apply sc_new_le_chans.
+Qed.
+
+Lemma sc_new_enh_chans b h i scids : forall m, b <> h -> same_conn b m (new_enh_chans m h i scids).
+Proof.
+  induction scids as [|s rest IH]; intros m Hn; cbn [new_enh_chans]; [apply sc_refl|].
+  eapply sc_trans; [|apply IH; auto].
+  unfold pend_add. cbn [m_pend with_chs hnew with_heap].
+  destruct (tget h i (m_pend m)) as [[w us]|]; apply sc_intro; try sc_tab; try sc_heap_new; try sc_w_new.
+Qed.
+
+Lemma sc_open_enh b m h psm n credits : b <> h -> same_conn b m (fst (open_enh m h psm n credits)).
+Proof.
+  intros Hn. unfold open_enh. destruct (find_free_le_n _ _); cbn [fst].
+  - apply sc_intro; try sc_tab; try sc_heap_new; try sc_w_new.
+  - eapply sc_trans; [|apply sc_new_enh_chans; auto].
+    apply sc_intro; try sc_tab; try sc_heap_new; try sc_w_new.
+Qed.
+
+(* ---------------------------------------------------------------- enhanced response *)
+Lemma sc_enh_each b h i ok credits : forall us m dcids w, b <> h ->
+  Inv m -> tget h i (m_pend m) = Some (w, us) ->
+  (ok = true -> length dcids = length us /\ NoDup dcids /\ forall d, In d dcids -> tget h d (m_le m) = None) ->
+  same_conn b m (enh_each m h i us dcids ok credits).
+Proof.
+  induction us as [|u us' IH]; intros m dcids w Hn I Hp Hok; cbn [enh_each]; [apply sc_refl|].
+  destruct (member_facts m h i w (u :: us') u I Hp (or_introl eq_refl)) as [c (Hu & M & _)].
+  destruct M as (_ & Mc & _).
+  assert (Hstep : forall (hasd : bool) d,
+            (ok = true -> hasd = true /\ tget h d (m_le m) = None) ->
+            let m1 := pend_set m h i us' in
+            let f := fun c => if ok then set_st (set_out (set_dcid c d) credits (c_pending c) (c_drained c)) SConnected
+                              else set_st c SConnError in
+            let m2 := if hasd then hupd m1 u f else m1 in
+            let m3 := if ok then le_register m2 [u] else chs_unregister m2 [u] in
+            same_conn b m m3).
+  { intros hasd d _ m1 f m2 m3. subst m3 m2 m1. unfold pend_set. rewrite Hp.
+    assert (Hh : forall X, hget (if hasd then hupd (with_pend m X) u f else with_pend m X) u =
+                           Some (if hasd then f c else c)).
+    { intros X. destruct hasd; autorewrite with acc; rewrite ?Z.eqb_refl, ?Hu; reflexivity. }
+    destruct ok; cbn [le_register chs_unregister]; rewrite Hh;
+      destruct hasd; subst f; cbn [c_conn c_scid c_dcid set_st set_out set_dcid];
+      apply (sc_one b h m _ u c); auto; try sc_tab;
+      try (intros c' H; autorewrite with acc in H; rewrite ?Z.eqb_refl, ?Hu in H; cbn in H; injection H as <-; cbn; auto);
+      try (intros w0; left; autorewrite with acc; reflexivity). }
+  destruct dcids as [|d ds].
+  - assert (ok = false) by (destruct ok; auto; destruct (Hok eq_refl) as [L _]; discriminate). subst ok.
+    destruct (inv_enh_step m h i w u us' false 0 credits false I Hp) as (I3 & P3 & L3); [discriminate|].
+    eapply sc_trans; [apply (Hstep false 0); discriminate|].
+    cbn zeta in *. cbn [tl]. apply (IH _ [] w); auto; [|discriminate].
+    rewrite P3, tget_tset, !Z.eqb_refl. reflexivity.
+  - destruct (inv_enh_step m h i w u us' ok d credits true I Hp) as (I3 & P3 & L3).
+    { intros E. destruct (Hok E) as (_ & _ & F). split; auto. apply F. now left. }
+    eapply sc_trans; [apply (Hstep true d)|].
+    { intros E. destruct (Hok E) as (_ & _ & F). split; auto. apply F. now left. }
+    cbn zeta in *. cbn [tl]. apply (IH _ ds w); auto.
+    + rewrite P3, tget_tset, !Z.eqb_refl. reflexivity.
+    + intros E. destruct (Hok E) as (L & N & F). inversion N; subst. cbn in L. split; [lia|split; [auto|]].
+      intros d' Hd'. rewrite L3, tget_tset, tget_tdel. destruct (Z.eqb_spec d' d); [subst; tauto|].
+      rewrite andb_false_r. apply F. now right.
+Qed.
+
+Lemma sc_recv_enh_rsp b m h id credits result dcids :
+  Inv m -> frame_ok m h (FEnhRsp id credits result dcids) = true -> b <> h ->
+  same_conn b m (fst (recv_enh_rsp m h id credits result dcids)).
+Proof.
+  intros I Hok Hn. unfold recv_enh_rsp. cbn in Hok.
+  destruct (tget h id (m_pend m)) as [[w us]|] eqn:Hp; [|apply sc_refl]. cbn [fst].
+  assert (Hc : Z.eqb result R_OK = true -> length dcids = length us /\ NoDup dcids /\
+                                            forall d, In d dcids -> tget h d (m_le m) = None).
+  { intros E. rewrite E in Hok. cbn in Hok. apply andb_true_iff in Hok. destruct Hok as [Hok H3].
+    apply andb_true_iff in Hok. destruct Hok as [H1 H2].
+    apply Nat.eqb_eq in H1. apply nodupz_NoDup in H2. apply negb_true_iff in H3. rewrite any_mem_false in H3.
+    repeat split; auto. intros d Hd. destruct (tget h d (m_le m)) eqn:Eg; auto.
+    exfalso. apply (H3 d Hd). apply tkeys_tget. congruence. }
+  pose proof (sc_enh_each b h id (Z.eqb result R_OK) credits us m dcids w Hn I Hp Hc) as S1.
+  destruct (inv_enh_each h id (Z.eqb result R_OK) credits us m dcids w I Hp Hc) as [I1 P1].
+  eapply sc_trans; [exact S1|].
+  destruct (pend_ok _ I1 _ _ _ _ P1) as ([x (Hx & _ & _ & Hxc & _)] & _).
+  apply sc_intro; try sc_tab; try (intros; left; autorewrite with acc; reflexivity).
+  intros w0. autorewrite with acc. destruct (Z.eqb_spec w0 w); [|left; reflexivity]. subst.
+  right. rewrite Hx. cbn. split; intros x0 H0; injection H0 as <-; rewrite ?w_conn_wres1; congruence.
+Qed.
+
+(* ---------------------------------------------------------------- link loss *)
+Lemma down_notouch m h w x : Inv m -> wget m w = Some x -> w_conn x <> h ->
+  ~ In w (down_cancels m h (down_us m h)) /\ ~ In w (down_results m (down_us m h)).
+Proof.
+  intros I Hx Hn. split.
+  - rewrite down_cancels_spec. intros [[u [c (Hu & Hc & Hk)]]|[id [us' Hi]]].
+    + destruct (ch_cw m I u c w Hu Hc) as (_ & _ & [x0 (A & _ & _ & B & _)]).
+      rewrite Hx in A. inversion A; subst x0.
+      assert (c_conn c = h); [|congruence].
+      destruct (c_kind c); auto. apply (down_us_spec m h u I) in Hk. destruct Hk as [c0 (A0 & B0 & _)]. congruence.
+    + apply (In_tget _ _ _ _ (nd_pend m I)) in Hi. destruct (pend_ok m I _ _ _ _ Hi) as [[x0 (A & _ & _ & B & _)] _].
+      congruence.
+  - rewrite down_results_spec. intros [u [c (Hu & Hc & Hk)]].
+    destruct (ch_dw m I u c w Hu Hc) as (_ & _ & [x0 (A & _ & _ & B & _)]).
+    rewrite Hx in A. inversion A; subst x0.
+    apply (down_us_spec m h u I) in Hk. destruct Hk as [c0 (A0 & B0 & _)]. congruence.
+Qed.
+
+Lemma sc_down b m h : Inv m -> b <> h -> same_conn b m (do_down m h).
+Proof.
+  intros I Hn. apply sc_intro.
+  - intros k. cbn [do_down m_chs]. rewrite tget_tdrop. destruct (Z.eqb_spec b h); [congruence|auto].
+  - intros k. cbn [do_down m_le]. rewrite tget_tdrop. destruct (Z.eqb_spec b h); [congruence|auto].
+  - intros k. cbn [do_down m_reqs]. rewrite tget_tdrop. destruct (Z.eqb_spec b h); [congruence|auto].
+  - intros k. cbn [do_down m_pend]. rewrite tget_tdrop. destruct (Z.eqb_spec b h); [congruence|auto].
+  - cbn [do_down m_ids]. now apply aget_adel_other.
+  - intros u. rewrite hget_down. destruct (hget m u) as [c|] eqn:Hu; [|left; reflexivity]. cbn.
+    destruct (Z.eq_dec (c_conn c) h) as [Hc|Hc].
+    + right. destruct (down_chan_facts m h u c I Hu Hc) as (_ & A & _). split; intros c0 [= <-]; congruence.
+    + left. now rewrite (down_chan_other m h u c I Hu Hc).
+  - intros w. rewrite wget_down. destruct (wget m w) as [x|] eqn:Hx; [|left; reflexivity]. cbn.
+    destruct (Z.eq_dec (w_conn x) h) as [Hc|Hc].
+    + right. split; intros x0 [= <-]; repeat destruct (memz _ _); rewrite ?w_conn_wres1; congruence.
+    + left. destruct (down_notouch m h w x I Hx Hc) as [N1 N2]. apply memz_false in N1, N2. now rewrite N1, N2.
+Qed.
+
+(* ---------------------------------------------------------------- the theorem *)
+(* the connection an event is about *)
+Definition ev_conn (m : mgr) (e : event) : option Z :=
+  match e with
+  | EOpen h _ _ _ _ _ => Some h
+  | ERecv h _ => Some h
+  | EDown h => Some h
+  | EClose u | EAbort u | EWrite u _ | EGrant u _ => option_map c_conn (hget m u)
+  end.
+
+Theorem links_independent m e a b : reachable m -> ev_ok m e = true ->
+  ev_conn m e = Some a -> b <> a -> same_conn b m (fst (step m e)).
+Proof.
+  intros R Hok Ha Hn. pose proof (reachable_Inv m R) as I.
+  destruct e as [h kind psm n mode credits|u|u|u k|u n|h f|h]; cbn [step ev_conn] in *.
+  - injection Ha as ->. destruct (Z.eqb kind K_LE); [now apply sc_open_le|].
+    destruct (Z.eqb kind K_ENH); [now apply sc_open_enh|now apply sc_open_cl].
+  - destruct (hget m u) as [c|] eqn:Hu; [|discriminate]. injection Ha as <-. eapply sc_close; eauto.
+  - destruct (hget m u) as [c|] eqn:Hu; [|discriminate]. injection Ha as <-. eapply sc_abort; eauto.
+  - destruct (hget m u) as [c|] eqn:Hu; [|discriminate]. injection Ha as <-. eapply sc_write; eauto.
+  - destruct (hget m u) as [c|] eqn:Hu; [|discriminate]. injection Ha as <-. eapply sc_grant; eauto.
+  - injection Ha as ->. destruct f; cbn [recv].
+    + now apply sc_recv_conn_req.
+    + now apply sc_recv_conn_rsp.
+    + now apply sc_recv_conf_req.
+    + now apply sc_recv_conf_rsp.
+    + now apply sc_recv_disc_req.
+    + now apply sc_recv_disc_rsp.
+    + now apply sc_recv_le_req.
+    + now apply sc_recv_le_rsp.
+    + now apply sc_recv_enh_req.
+    + now apply sc_recv_enh_rsp.
+    + now apply sc_recv_credit.
+    + apply sc_refl.
+    + apply sc_refl.
+  - injection Ha as ->. now apply sc_down.
+Qed.
+
+(* an event that addresses no channel object changes nothing *)
+Lemma ev_conn_none m e : ev_conn m e = None -> step m e = (m, []).
+Proof.
+  destruct e; cbn; try discriminate; destruct (hget m _) eqn:E; try discriminate; intros _;
+    unfold do_close, abort_chan, do_write, do_grant; rewrite E; reflexivity.
 Qed.
